@@ -1,2 +1,1890 @@
-/- C05 (statements are being added) -/
+/-
+  C04 / C05 — substitution pins the value and only narrows the schema.
+-/
 import D42.Model.Subst
+import D42.Props.C02
+import D42.Props.C14
+import D42.Props.C12
+
+namespace D42
+
+mutual
+/-- no float schema with a fixed value anywhere (finding K7: re-substituting a *close* float re-centres
+    the tolerance window, so the result can accept a value the original rejects) -/
+def NoFixedFloat : Schema → Prop
+  | .scalar (.float v _ _ _ _ _) => v = none
+  | .scalar _ => True
+  | .listU _ => True
+  | .listT t _ => NoFixedFloat t
+  | .listE _ es _ _ => NoFixedFloatL es
+  | .dict none _ => True
+  | .dict (some fs) _ => NoFixedFloatF fs
+  | .any none => True
+  | .any (some ts) => NoFixedFloatL ts
+  | .alias _ t => NoFixedFloat t
+  | .custom t => NoFixedFloat t
+def NoFixedFloatL : List Schema → Prop
+  | [] => True
+  | s :: ss => NoFixedFloat s ∧ NoFixedFloatL ss
+def NoFixedFloatF : List (PyKey × Bool × Schema) → Prop
+  | [] => True
+  | (_, _, s) :: fs => NoFixedFloat s ∧ NoFixedFloatF fs
+end
+
+mutual
+/-- no `[..., a, ...]` (contains) element list anywhere (finding K12: the window that is substituted is
+    the first one that *can* be substituted — a partial dict may match earlier than the window that made
+    the value conform) -/
+def NoContains : Schema → Prop
+  | .scalar _ => True
+  | .listU _ => True
+  | .listT t _ => NoContains t
+  | .listE lead es trail _ => ¬ (lead = true ∧ trail = true ∧ es ≠ []) ∧ NoContainsL es
+  | .dict none _ => True
+  | .dict (some fs) _ => NoContainsF fs
+  | .any none => True
+  | .any (some ts) => NoContainsL ts
+  | .alias _ t => NoContains t
+  | .custom t => NoContains t
+def NoContainsL : List Schema → Prop
+  | [] => True
+  | s :: ss => NoContains s ∧ NoContainsL ss
+def NoContainsF : List (PyKey × Bool × Schema) → Prop
+  | [] => True
+  | (_, _, s) :: fs => NoContains s ∧ NoContainsF fs
+end
+
+mutual
+/-- dict schemas have distinct keys at every level -/
+def KeysNodupS : Schema → Prop
+  | .scalar _ => True
+  | .listU _ => True
+  | .listT t _ => KeysNodupS t
+  | .listE _ es _ _ => KeysNodupSL es
+  | .dict none _ => True
+  | .dict (some fs) _ => (fs.map (·.1)).Nodup ∧ KeysNodupSF fs
+  | .any none => True
+  | .any (some ts) => KeysNodupSL ts
+  | .alias _ t => KeysNodupS t
+  | .custom t => KeysNodupS t
+def KeysNodupSL : List Schema → Prop
+  | [] => True
+  | s :: ss => KeysNodupS s ∧ KeysNodupSL ss
+def KeysNodupSF : List (PyKey × Bool × Schema) → Prop
+  | [] => True
+  | (_, _, s) :: fs => KeysNodupS s ∧ KeysNodupSF fs
+end
+
+/-! ### the substitution validator is weaker than the validator -/
+
+theorem minByLen_nil_of_mem {α} (ws : List (List α)) (h : [] ∈ ws) : minByLen ws = [] := by
+  have hne : ws ≠ [] := by intro h0; simp [h0] at h
+  exact (minByLen_nil_iff ws hne).2 ⟨[], h, rfl⟩
+
+theorem mem_of_minByLen_nil {α} (ws : List (List α)) (hne : ws ≠ []) (h : minByLen ws = []) : [] ∈ ws := by
+  obtain ⟨w, hw, rfl⟩ := (minByLen_nil_iff ws hne).1 h
+  exact hw
+
+theorem windowsP_sub_nil (env : Env) (elems : List Schema)
+    (hE : ∀ xs i a p, validateElemsP env false elems xs i a p = [] → validateElemsP env true elems xs i a p = []) :
+    ∀ (xs : List PyVal) (i n : Nat) (a : PyVal) (p : Path),
+      [] ∈ windowsP env false elems xs i n a p → [] ∈ windowsP env true elems xs i n a p
+  | [], i, n, a, p, h => by simp [windowsP] at h
+  | x :: xs, i, n, a, p, h => by
+    simp only [windowsP, List.mem_cons] at h ⊢
+    rcases h with h | h
+    · exact Or.inl (hE _ _ _ _ h.symm).symm
+    · exact Or.inr (windowsP_sub_nil env elems hE xs (i + 1) n a p h)
+
+mutual
+theorem subV (env : Env) : ∀ (s : Schema) (a : PyVal) (p : Path),
+    validateP env false s a p = [] → validateP env true s a p = []
+  | .scalar k, a, p, h => by simpa [validateP] using h
+  | .listU L, a, p, h => by
+    cases a <;> simp only [validateP] at h ⊢ <;> exact h
+  | .listT t L, a, p, h => by
+    cases a <;> simp only [validateP] at h ⊢ <;> try exact h
+    case list xs =>
+      cases hl : lenErrFirst L xs.length p (.list xs) with
+      | some e => simp [hl] at h
+      | none =>
+        simp only [hl] at h ⊢
+        exact subV_all env t xs 0 xs.length p h
+  | .listE lead es trail L, a, p, h => by
+    cases a <;> simp only [validateP] at h ⊢ <;> try exact h
+    case list xs =>
+      cases hl : lenErrFirst L xs.length p (.list xs) with
+      | some e => simp [hl] at h
+      | none =>
+        simp only [hl] at h ⊢
+        have hE := subV_elems env es
+        cases lead <;> cases trail <;>
+          simp only [Bool.false_and, Bool.and_false, Bool.true_and, Bool.and_true, Bool.false_eq_true,
+            ↓reduceIte] at h ⊢
+        · rw [List.append_eq_nil_iff] at h ⊢
+          exact ⟨hE _ _ _ _ h.1, h.2⟩
+        · exact hE _ _ _ _ h
+        · exact hE _ _ _ _ h
+        · cases es with
+          | nil => simp [validateElemsP]
+          | cons e es' =>
+            simp only [List.isEmpty_cons, Bool.not_false, if_true] at h ⊢
+            cases xs with
+            | nil => simp only [List.isEmpty_nil, if_true] at h ⊢; exact hE _ _ _ _ h
+            | cons x xs' =>
+              simp only [List.isEmpty_cons, Bool.false_eq_true, if_false] at h ⊢
+              apply minByLen_nil_of_mem
+              apply windowsP_sub_nil env (e :: es') hE
+              exact mem_of_minByLen_nil _ (windowsP_ne_nil env false (e :: es') x xs' 0 _ _ p) h
+  | .dict none _, a, p, h => by
+    cases a <;> simp only [validateP] at h ⊢ <;> exact h
+  | .dict (some fs) ell, a, p, h => by
+    cases a <;> simp only [validateP] at h ⊢ <;> try exact h
+    case dict kvs =>
+      rw [List.append_eq_nil_iff] at h ⊢
+      exact ⟨subV_fields env fs kvs _ p h.1, h.2⟩
+  | .any none, _, _, _ => by simp [validateP]
+  | .any (some ts), a, p, h => by
+    simp only [validateP] at h ⊢
+    cases ha : anyOkP env false ts a p with
+    | false => simp [ha] at h
+    | true => simp [subV_any env ts a p ha]
+  | .alias _ t, a, p, h => by
+    simp only [validateP] at h ⊢; exact subV env t a p h
+  | .custom t, a, p, h => by
+    simp only [validateP] at h ⊢; exact subV env t a p h
+theorem subV_all (env : Env) (t : Schema) : ∀ (xs : List PyVal) (i n : Nat) (p : Path),
+    validateAllP env false t xs i n p = [] → validateAllP env true t xs i n p = []
+  | [], _, _, _, _ => by simp [validateAllP]
+  | x :: xs, i, n, p, h => by
+    simp only [validateAllP, List.append_eq_nil_iff] at h ⊢
+    refine ⟨?_, subV_all env t xs (i + 1) n p h.2⟩
+    split
+    · rfl
+    · have h1 := h.1
+      simp only [Bool.false_and, Bool.false_eq_true, if_false] at h1
+      exact subV env t x _ h1
+theorem subV_elems (env : Env) : ∀ (ss : List Schema) (xs : List PyVal) (i : Nat) (a : PyVal) (p : Path),
+    validateElemsP env false ss xs i a p = [] → validateElemsP env true ss xs i a p = []
+  | [], _, _, _, _, _ => by simp [validateElemsP]
+  | _ :: _, [], _, _, _, h => by simp [validateElemsP] at h
+  | s :: ss, x :: xs, i, a, p, h => by
+    simp only [validateElemsP, List.append_eq_nil_iff] at h ⊢
+    exact ⟨subV env s x _ h.1, subV_elems env ss xs (i + 1) a p h.2⟩
+theorem subV_fields (env : Env) : ∀ (fs : List (PyKey × Bool × Schema)) (kvs : List (PyKey × PyVal)) (a : PyVal) (p : Path),
+    validateFieldsP env false fs kvs a p = [] → validateFieldsP env true fs kvs a p = []
+  | [], _, _, _, _ => by simp [validateFieldsP]
+  | (k, opt, s) :: fs, kvs, a, p, h => by
+    simp only [validateFieldsP, List.append_eq_nil_iff] at h ⊢
+    refine ⟨?_, subV_fields env fs kvs a p h.2⟩
+    have h1 := h.1
+    cases hl : lookupKey k kvs with
+    | none => simp
+    | some x =>
+      simp only [hl, Bool.false_and, Bool.false_eq_true, if_false] at h1
+      simp only [Bool.true_and]
+      split
+      · rfl
+      · exact subV env s x _ h1
+theorem subV_any (env : Env) : ∀ (ss : List Schema) (a : PyVal) (p : Path),
+    anyOkP env false ss a p = true → anyOkP env true ss a p = true
+  | [], _, _, h => by simp [anyOkP] at h
+  | s :: ss, a, p, h => by
+    simp only [anyOkP, Bool.or_eq_true, List.isEmpty_iff] at h ⊢
+    rcases h with h | h
+    · exact Or.inl (subV env s a p h)
+    · exact Or.inr (subV_any env ss a p h)
+end
+
+/-- on plain values (no `...`) the substitution validator reports exactly the validator's errors minus
+    the missing-key errors; in particular a value the validator accepts is accepted -/
+theorem subValidate_of_validate (env : Env) (s : Schema) (v : PyVal) (p : Path)
+    (h : validateP env false s v p = []) : validateP env true s v p = [] :=
+  subV env s v p h
+
+
+/-! ### generic helpers -/
+
+theorem except_bind_ok {α β} (x : Except PyExc α) (f : α → Except PyExc β) (r : β) :
+    (x >>= f) = .ok r ↔ ∃ a, x = .ok a ∧ f a = .ok r := by
+  cases x <;> simp [bind, Except.bind]
+
+theorem except_pure_ok {α} (a r : α) : (pure a : Except PyExc α) = .ok r ↔ a = r := by
+  simp [pure, Except.pure]
+
+theorem fromNativeS_ok (v : PyVal) (s : Schema) : fromNativeS v = .ok s ↔ fromNative v = .ok s := by
+  unfold fromNativeS
+  cases fromNative v <;> simp
+
+theorem fromNativeListS_cons_ok (x : PyVal) (xs : List PyVal) (es : List Schema) :
+    fromNativeListS (x :: xs) = .ok es ↔
+      ∃ a b, fromNative x = .ok a ∧ fromNativeListS xs = .ok b ∧ es = a :: b := by
+  simp only [fromNativeListS, except_bind_ok, except_pure_ok, fromNativeS_ok]
+  constructor
+  · rintro ⟨a, ha, b, hb, rfl⟩; exact ⟨a, b, ha, hb, rfl⟩
+  · rintro ⟨a, b, ha, hb, rfl⟩; exact ⟨a, ha, b, hb, rfl⟩
+
+theorem fromNativeListS_ok : ∀ (xs : List PyVal) (es : List Schema),
+    fromNativeListS xs = .ok es → fromNativeList xs = .ok es
+  | [], es, h => by simpa [fromNativeListS, fromNativeList] using h
+  | x :: xs, es, h => by
+    obtain ⟨a, b, ha, hb, rfl⟩ := (fromNativeListS_cons_ok _ _ _).1 h
+    exact (fromNativeList_cons_ok _ _ _).2 ⟨a, b, ha, fromNativeListS_ok xs b hb, rfl⟩
+
+theorem fromNativeListS_length (xs : List PyVal) (es : List Schema)
+    (h : fromNativeListS xs = .ok es) : es.length = xs.length :=
+  fromNativeList_length xs es (fromNativeListS_ok xs es h)
+
+theorem fromNativeListS_nil (es : List Schema) (h : fromNativeListS [] = .ok es) : es = [] := by
+  simpa [fromNativeListS, eq_comm] using h
+
+/-! ### plain values -/
+
+theorem plainL_iff : ∀ (xs : List PyVal), PlainL xs ↔ ∀ x ∈ xs, Plain x
+  | [] => by simp [PlainL]
+  | x :: xs => by simp [PlainL, plainL_iff xs]
+
+theorem distinctL_iff : ∀ (xs : List PyVal), DistinctKeysL xs ↔ ∀ x ∈ xs, DistinctKeys x
+  | [] => by simp [DistinctKeysL]
+  | x :: xs => by simp [DistinctKeysL, distinctL_iff xs]
+
+theorem noNaNL_iff : ∀ (xs : List PyVal), NoNaNL xs ↔ ∀ x ∈ xs, NoNaN x
+  | [] => by simp [NoNaNL]
+  | x :: xs => by simp [NoNaNL, noNaNL_iff xs]
+
+theorem plain_not_ell (x : PyVal) (h : Plain x) : isEllipsis x = false := by
+  cases x <;> simp_all [Plain, isEllipsis]
+
+theorem lookupKey_plain : ∀ (kvs : List (PyKey × PyVal)) (k : PyKey) (x : PyVal),
+    PlainKV kvs → lookupKey k kvs = some x → Plain x
+  | [], _, _, _, h => by simp [lookupKey] at h
+  | (k', v) :: r, k, x, hp, h => by
+    simp only [PlainKV] at hp
+    simp only [lookupKey] at h
+    split at h
+    · cases h; exact hp.2.1
+    · exact lookupKey_plain r k x hp.2.2 h
+
+theorem lookupKey_distinct : ∀ (kvs : List (PyKey × PyVal)) (k : PyKey) (x : PyVal),
+    DistinctKeysKV kvs → lookupKey k kvs = some x → DistinctKeys x
+  | [], _, _, _, h => by simp [lookupKey] at h
+  | (k', v) :: r, k, x, hp, h => by
+    simp only [DistinctKeysKV] at hp
+    simp only [lookupKey] at h
+    split at h
+    · cases h; exact hp.1
+    · exact lookupKey_distinct r k x hp.2 h
+
+theorem lookupKey_noNaN : ∀ (kvs : List (PyKey × PyVal)) (k : PyKey) (x : PyVal),
+    NoNaNKV kvs → lookupKey k kvs = some x → NoNaN x
+  | [], _, _, _, h => by simp [lookupKey] at h
+  | (k', v) :: r, k, x, hp, h => by
+    simp only [NoNaNKV] at hp
+    simp only [lookupKey] at h
+    split at h
+    · cases h; exact hp.1
+    · exact lookupKey_noNaN r k x hp.2 h
+
+def ellO (o : Option PyVal) : Bool := match o with | some .ellipsis => true | _ => false
+
+theorem stripEll_eq (xs : List PyVal) :
+    stripEll xs = (ellO xs.head?,
+      (if ellO (if ellO xs.head? then xs.drop 1 else xs).getLast? then (if ellO xs.head? then xs.drop 1 else xs).dropLast
+       else (if ellO xs.head? then xs.drop 1 else xs)),
+      ellO (if ellO xs.head? then xs.drop 1 else xs).getLast?) := rfl
+
+theorem ellO_false (o : Option PyVal) (h : ∀ y, o = some y → Plain y) : ellO o = false := by
+  cases o with
+  | none => rfl
+  | some y => have := h y rfl; cases y <;> simp_all [ellO, Plain]
+
+theorem stripEll_plain (xs : List PyVal) (h : ∀ x ∈ xs, Plain x) : stripEll xs = (false, xs, false) := by
+  have h1 : ellO xs.head? = false := ellO_false _ (fun y hy => h y (List.mem_of_head? hy))
+  have h2 : ellO xs.getLast? = false := ellO_false _ (fun y hy => h y (List.mem_of_getLast? hy))
+  rw [stripEll_eq]
+  simp only [h1, Bool.false_eq_true, if_false, h2]
+
+/-! ### the shape of a successful substitution -/
+
+theorem substAll_cons_ok (env : Env) (t : Schema) (x : PyVal) (xs : List PyVal) (es : List Schema) :
+    substAll env t (x :: xs) = .ok es ↔
+      ∃ a b, subst env t x = .ok a ∧ substAll env t xs = .ok b ∧ es = a :: b := by
+  simp only [substAll, except_bind_ok, except_pure_ok]
+  constructor
+  · rintro ⟨a, ha, b, hb, rfl⟩; exact ⟨a, b, ha, hb, rfl⟩
+  · rintro ⟨a, b, ha, hb, rfl⟩; exact ⟨a, ha, b, hb, rfl⟩
+
+theorem substZip_cons_ok (env : Env) (s : Schema) (ss : List Schema) (x : PyVal) (xs : List PyVal) (es : List Schema) :
+    substZip env (s :: ss) (x :: xs) = .ok es ↔
+      ∃ a b, subst env s x = .ok a ∧ substZip env ss xs = .ok b ∧ es = a :: b := by
+  simp only [substZip, except_bind_ok, except_pure_ok]
+  constructor
+  · rintro ⟨a, ha, b, hb, rfl⟩; exact ⟨a, b, ha, hb, rfl⟩
+  · rintro ⟨a, b, ha, hb, rfl⟩; exact ⟨a, ha, b, hb, rfl⟩
+
+theorem substElems_ok (env : Env) (elems : List Schema) (xs : List PyVal) (start : Nat) (es : List Schema) :
+    substElems env elems xs start = .ok es ↔
+      ∃ mid suf pre, substZip env elems (xs.drop start) = .ok mid ∧
+        fromNativeListS (xs.drop (start + elems.length)) = .ok suf ∧
+        fromNativeListS (xs.take start) = .ok pre ∧ es = pre ++ mid ++ suf := by
+  simp only [substElems, except_bind_ok, except_pure_ok]
+  constructor
+  · rintro ⟨a, ha, b, hb, c, hc, rfl⟩; exact ⟨a, b, c, ha, hb, hc, rfl⟩
+  · rintro ⟨a, b, c, ha, hb, hc, rfl⟩; exact ⟨a, ha, b, hb, c, hc, rfl⟩
+
+theorem substZip_length (env : Env) : ∀ (ss : List Schema) (xs : List PyVal) (es : List Schema),
+    substZip env ss xs = .ok es → es.length = ss.length ∧ ss.length ≤ xs.length
+  | [], xs, es, h => by
+    have : es = [] := by simpa [substZip, eq_comm] using h
+    subst this; simp
+  | _ :: _, [], es, h => by simp [substZip] at h
+  | s :: ss, x :: xs, es, h => by
+    obtain ⟨a, b, _, hb, rfl⟩ := (substZip_cons_ok _ _ _ _ _ _).1 h
+    have := substZip_length env ss xs b hb
+    simp only [List.length_cons]; omega
+
+theorem substWindows_ok (env : Env) (elems : List Schema) (xs : List PyVal) (n : Nat) (es : List Schema) :
+    ∀ (k i : Nat), n - i = k → substWindows env elems xs i n = some es →
+      ∃ j, i ≤ j ∧ j < n ∧ substElems env elems xs j = .ok es
+  | 0, i, hk, h => by
+    rw [substWindows] at h
+    have : ¬ i < n := by omega
+    simp [this] at h
+  | k + 1, i, hk, h => by
+    rw [substWindows] at h
+    by_cases hi : i < n
+    · simp only [hi, if_true] at h
+      cases ho : substElems env elems xs i with
+      | ok r =>
+        simp only [ho, ok?] at h
+        cases h
+        exact ⟨i, Nat.le_refl _, hi, ho⟩
+      | error e =>
+        simp only [ho, ok?] at h
+        obtain ⟨j, hj1, hj2, hj3⟩ := substWindows_ok env elems xs n es k (i + 1) (by omega) h
+        exact ⟨j, by omega, hj2, hj3⟩
+    · simp [hi] at h
+
+
+/-! ### C05: substitution only narrows -/
+
+/-- "substituting a plain value into `s` only narrows `s`" -/
+def Narrows (env : Env) (s : Schema) : Prop :=
+  ∀ (s' : Schema) (v w : PyVal), subst env s v = .ok s' → Plain v → NoFixedFloat s →
+    Conforms env s' w → Conforms env s w
+
+theorem noFixedFloatL_iff : ∀ (ss : List Schema), NoFixedFloatL ss ↔ ∀ s ∈ ss, NoFixedFloat s
+  | [] => by simp [NoFixedFloatL]
+  | s :: ss => by simp [NoFixedFloatL, noFixedFloatL_iff ss]
+
+theorem narrows_scalar (env : Env) (k : ScalarS) (v w : PyVal) (hv : validateScalar env k v [] = [])
+    (hf : NoFixedFloat (.scalar k)) (hc : ConformsScalar env (k.withValue v) w) : ConformsScalar env k w := by
+  have hcv := (validateScalar_nil_iff env k v []).1 hv
+  cases k with
+  | none => simpa [ScalarS.withValue] using hc
+  | int x mn mx =>
+    obtain ⟨n, hn, hx, _, _⟩ := hcv
+    have hw : (ScalarS.int x mn mx).withValue v = .int (some n) mn mx := by
+      cases v <;> simp_all [ScalarS.withValue]
+    rw [hw] at hc
+    obtain ⟨m, hm, hmx, h1, h2⟩ := hc
+    have : m = n := hmx n rfl
+    subst this
+    exact ⟨m, hm, hx, h1, h2⟩
+  | float x mn mx pr d1 d2 =>
+    simp only [NoFixedFloat] at hf
+    subst hf
+    cases v <;> simp_all [ConformsScalar, ScalarS.withValue]
+    obtain ⟨g, rfl, _, h1, h2⟩ := hc
+    exact ⟨g, rfl, h1, h2⟩
+  | bool x => cases v <;> simp_all [ConformsScalar, ScalarS.withValue]
+  | str x L al sub pat =>
+    cases v <;> simp_all [ConformsScalar, ScalarS.withValue]
+    obtain ⟨s, rfl, rfl, rest⟩ := hc
+    exact ⟨_, rfl, hcv.1, rest⟩
+  | bytes x => cases v <;> simp_all [ConformsScalar, ScalarS.withValue]
+  | uuid4 x =>
+    cases v <;> simp_all [ConformsScalar, ScalarS.withValue]
+    obtain ⟨i, ⟨rfl, _⟩, h⟩ := hcv
+    exact h
+  | datetime x => cases v <;> simp_all [ConformsScalar, ScalarS.withValue]
+  | date x => cases v <;> simp_all [ConformsScalar, ScalarS.withValue]
+
+/-! #### lists -/
+
+theorem PrefixC_append_left (env : Env) : ∀ (a b : List Schema) (ys : List PyVal),
+    PrefixC env (a ++ b) ys → PrefixC env a ys
+  | [], _, _, _ => by simp [PrefixC]
+  | _ :: _, _, [], h => by simp [PrefixC] at h
+  | s :: a, b, y :: ys, h => by
+    simp only [List.cons_append, PrefixC] at h ⊢
+    exact ⟨h.1, PrefixC_append_left env a b ys h.2⟩
+
+theorem PrefixC_append_right (env : Env) : ∀ (a b : List Schema) (ys : List PyVal),
+    PrefixC env (a ++ b) ys → PrefixC env b (ys.drop a.length)
+  | [], _, _, h => by simpa using h
+  | _ :: _, _, [], h => by simp [PrefixC] at h
+  | s :: a, b, y :: ys, h => by
+    simp only [List.cons_append, PrefixC] at h
+    simpa using PrefixC_append_right env a b ys h.2
+
+theorem substAll_narrows (env : Env) (t : Schema) (ih : Narrows env t) (hf : NoFixedFloat t) :
+    ∀ (xs : List PyVal) (es : List Schema) (ys : List PyVal), substAll env t xs = .ok es →
+      (∀ x ∈ xs, Plain x) → ys.length = es.length → PrefixC env es ys → AllC env t ys
+  | [], es, ys, h, _, hl, _ => by
+    have : es = [] := by simpa [substAll, eq_comm] using h
+    subst this
+    have : ys = [] := by simpa using hl
+    subst this
+    simp [AllC]
+  | x :: xs, es, ys, h, hp, hl, hc => by
+    obtain ⟨a, b, ha, hb, rfl⟩ := (substAll_cons_ok _ _ _ _ _).1 h
+    cases ys with
+    | nil => simp at hl
+    | cons y ys' =>
+      simp only [PrefixC] at hc
+      simp only [AllC]
+      exact ⟨ih a x y ha (hp x (by simp)) hf hc.1,
+        substAll_narrows env t ih hf xs b ys' hb (fun z hz => hp z (by simp [hz])) (by simpa using hl) hc.2⟩
+
+theorem substZip_narrows (env : Env) : ∀ (ss : List Schema) (_ : ∀ s ∈ ss, Narrows env s)
+    (_ : ∀ s ∈ ss, NoFixedFloat s) (xs : List PyVal) (es : List Schema) (ys : List PyVal),
+    substZip env ss xs = .ok es → (∀ x ∈ xs, Plain x) → PrefixC env es ys → PrefixC env ss ys
+  | [], _, _, _, _, _, _, _, _ => by simp [PrefixC]
+  | _ :: _, _, _, [], _, _, h, _, _ => by simp [substZip] at h
+  | s :: ss, ih, hf, x :: xs, es, ys, h, hp, hc => by
+    obtain ⟨a, b, ha, hb, rfl⟩ := (substZip_cons_ok _ _ _ _ _ _).1 h
+    cases ys with
+    | nil => simp [PrefixC] at hc
+    | cons y ys' =>
+      simp only [PrefixC] at hc ⊢
+      exact ⟨ih s (by simp) a x y ha (hp x (by simp)) (hf s (by simp)) hc.1,
+        substZip_narrows env ss (fun s hs => ih s (by simp [hs])) (fun s hs => hf s (by simp [hs]))
+          xs b ys' hb (fun z hz => hp z (by simp [hz])) hc.2⟩
+
+/-- what `_substitute_elements` produces, against any list the result accepts as an exact list -/
+theorem substElems_narrows (env : Env) (elems : List Schema) (ih : ∀ s ∈ elems, Narrows env s)
+    (hf : ∀ s ∈ elems, NoFixedFloat s) (xs : List PyVal) (start : Nat) (es : List Schema) (ys : List PyVal)
+    (h : substElems env elems xs start = .ok es) (hp : ∀ x ∈ xs, Plain x) (hstart : start ≤ xs.length)
+    (hc : PrefixC env es ys) :
+    PrefixC env elems (ys.drop start) ∧ start + elems.length ≤ xs.length ∧ es.length = xs.length := by
+  obtain ⟨mid, suf, pre, hmid, hsuf, hpre, rfl⟩ := (substElems_ok _ _ _ _ _).1 h
+  have hl1 := fromNativeListS_length _ _ hpre
+  have hl2 := fromNativeListS_length _ _ hsuf
+  have hl3 := substZip_length env _ _ _ hmid
+  simp only [List.length_take, List.length_drop] at hl1 hl2 hl3
+  have hpl : pre.length = start := by omega
+  refine ⟨?_, by omega, by simp only [List.length_append]; omega⟩
+  have h1 := PrefixC_append_left env _ _ _ hc
+  have h2 := PrefixC_append_right env _ _ _ h1
+  rw [hpl] at h2
+  exact substZip_narrows env elems ih hf _ mid _ hmid (fun z hz => hp z (List.mem_of_mem_drop hz)) h2
+
+
+theorem subst_listE_ok (env : Env) (lead : Bool) (elems : List Schema) (trail : Bool) (L : LenP)
+    (xs : List PyVal) (s' : Schema)
+    (h : subst env (.listE lead elems trail L) (.list xs) = .ok s') :
+    validateP env true (.listE lead elems trail L) (.list xs) [] = [] ∧
+    ∃ es, s' = .listE false es false L ∧
+      ((lead = true ∧ trail = true ∧ elems ≠ [] ∧ ∃ i, i < xs.length ∧ substElems env elems xs i = .ok es) ∨
+       (¬(lead = true ∧ trail = true ∧ elems ≠ []) ∧
+          substElems env elems xs (if trail = true then 0 else if lead = true then xs.length - elems.length else 0) = .ok es)) := by
+  simp only [subst] at h
+  split at h
+  · cases h
+  rename_i hv
+  split at h
+  · cases h
+  split at h
+  · cases h
+  have hv' : validateP env true (.listE lead elems trail L) (.list xs) [] = [] := by
+    simpa using hv
+  refine ⟨hv', ?_⟩
+  split at h
+  · rename_i hc
+    have hc' : lead = true ∧ trail = true ∧ elems ≠ [] := by
+      simpa [Bool.and_eq_true, List.isEmpty_iff, and_assoc] using hc
+    split at h
+    · rename_i es hw
+      cases h
+      obtain ⟨j, _, hj, hok⟩ := substWindows_ok env elems xs xs.length es _ 0 rfl hw
+      exact ⟨es, rfl, Or.inl ⟨hc'.1, hc'.2.1, hc'.2.2, j, hj, hok⟩⟩
+    · cases h
+  · rename_i hc
+    have hc' : ¬ (lead = true ∧ trail = true ∧ elems ≠ []) := by
+      simpa [Bool.and_eq_true, List.isEmpty_iff, and_assoc] using hc
+    split at h
+    · rename_i ht
+      obtain ⟨es, hes, rfl⟩ := bind_pure_ok _ _ _ h
+      exact ⟨es, rfl, Or.inr ⟨hc', by simpa [ht] using hes⟩⟩
+    · rename_i ht
+      split at h
+      · rename_i hl
+        obtain ⟨es, hes, rfl⟩ := bind_pure_ok _ _ _ h
+        exact ⟨es, rfl, Or.inr ⟨hc', by simpa [ht, hl] using hes⟩⟩
+      · rename_i hl
+        obtain ⟨es, hes, rfl⟩ := bind_pure_ok _ _ _ h
+        exact ⟨es, rfl, Or.inr ⟨hc', by simpa [ht, hl] using hes⟩⟩
+
+theorem subst_listT_ok (env : Env) (t : Schema) (L : LenP) (xs : List PyVal) (s' : Schema)
+    (hp : ∀ x ∈ xs, Plain x) (h : subst env (.listT t L) (.list xs) = .ok s') :
+    validateP env true (.listT t L) (.list xs) [] = [] ∧
+    ∃ es, substAll env t xs = .ok es ∧ s' = .listE false es false L := by
+  simp only [subst] at h
+  split at h
+  · cases h
+  rename_i hv
+  split at h
+  · cases h
+  split at h
+  · cases h
+  rw [stripEll_plain xs hp] at h
+  obtain ⟨es, hes, rfl⟩ := bind_pure_ok _ _ _ h
+  exact ⟨by simpa using hv, es, hes, rfl⟩
+
+theorem subst_listU_ok (env : Env) (L : LenP) (xs : List PyVal) (s' : Schema)
+    (hp : ∀ x ∈ xs, Plain x) (h : subst env (.listU L) (.list xs) = .ok s') :
+    validateP env true (.listU L) (.list xs) [] = [] ∧
+    ∃ es, fromNativeListS xs = .ok es ∧ s' = .listE false es false L := by
+  simp only [subst] at h
+  split at h
+  · cases h
+  rename_i hv
+  split at h
+  · cases h
+  split at h
+  · cases h
+  rw [stripEll_plain xs hp] at h
+  obtain ⟨es, hes, rfl⟩ := bind_pure_ok _ _ _ h
+  exact ⟨by simpa using hv, es, hes, rfl⟩
+
+theorem conforms_exact_list (env : Env) (es : List Schema) (L : LenP) (w : PyVal) :
+    Conforms env (.listE false es false L) w ↔
+      ∃ ys, w = .list ys ∧ LenOK L ys.length ∧ ys.length = es.length ∧ PrefixC env es ys := by
+  simp [Conforms]
+
+theorem narrows_listU (env : Env) (L : LenP) : Narrows env (.listU L) := by
+  intro s' v w hs hp _ hc
+  cases v
+  case list xs =>
+    simp only [Plain] at hp
+    obtain ⟨_, es, _, rfl⟩ := subst_listU_ok env L xs s' ((plainL_iff xs).1 hp) hs
+    obtain ⟨ys, rfl, hL, _⟩ := (conforms_exact_list _ _ _ _).1 hc
+    simp only [Conforms]
+    exact ⟨ys, rfl, hL⟩
+  all_goals (simp [subst, validateP] at hs)
+
+theorem narrows_listT (env : Env) (t : Schema) (L : LenP) (ih : Narrows env t) : Narrows env (.listT t L) := by
+  intro s' v w hs hp hf hc
+  cases v
+  case list xs =>
+    simp only [Plain] at hp
+    simp only [NoFixedFloat] at hf
+    have hp' := (plainL_iff xs).1 hp
+    obtain ⟨_, es, hes, rfl⟩ := subst_listT_ok env t L xs s' hp' hs
+    obtain ⟨ys, rfl, hL, hlen, hpc⟩ := (conforms_exact_list _ _ _ _).1 hc
+    simp only [Conforms]
+    exact ⟨ys, rfl, hL, substAll_narrows env t ih hf xs es ys hes hp' hlen hpc⟩
+  all_goals (simp [subst, validateP] at hs)
+
+theorem validateElemsP_nil_length (env : Env) (sub : Bool) : ∀ (ss : List Schema) (xs : List PyVal) (i : Nat) (a : PyVal) (p : Path),
+    validateElemsP env sub ss xs i a p = [] → ss.length ≤ xs.length
+  | [], _, _, _, _, _ => by simp
+  | _ :: _, [], _, _, _, h => by simp [validateElemsP] at h
+  | s :: ss, x :: xs, i, a, p, h => by
+    simp only [validateElemsP, List.append_eq_nil_iff] at h
+    have := validateElemsP_nil_length env sub ss xs (i + 1) a p h.2
+    simp only [List.length_cons]; omega
+
+theorem narrows_listE (env : Env) (lead : Bool) (elems : List Schema) (trail : Bool) (L : LenP)
+    (ih : ∀ s ∈ elems, Narrows env s) : Narrows env (.listE lead elems trail L) := by
+  intro s' v w hs hp hf hc
+  cases v
+  case list xs =>
+    simp only [Plain] at hp
+    simp only [NoFixedFloat] at hf
+    have hp' := (plainL_iff xs).1 hp
+    have hf' := (noFixedFloatL_iff elems).1 hf
+    obtain ⟨hv, es, rfl, hcase⟩ := subst_listE_ok env lead elems trail L xs s' hs
+    obtain ⟨ys, rfl, hL, hlen, hpc⟩ := (conforms_exact_list _ _ _ _).1 hc
+    simp only [Conforms]
+    refine ⟨ys, rfl, hL, ?_⟩
+    rcases hcase with ⟨hl, ht, hne, i, hi, hok⟩ | ⟨hnc, hok⟩
+    · have hc' : lead = true ∧ trail = true ∧ elems ≠ [] := ⟨hl, ht, hne⟩
+      rw [if_pos hc']
+      obtain ⟨h1, h2, h3⟩ := substElems_narrows env elems ih hf' xs i es ys hok hp' (Nat.le_of_lt hi) hpc
+      have : 0 < elems.length := List.length_pos_iff.2 hne
+      exact ⟨i, by omega, h1⟩
+    · rw [if_neg hnc]
+      by_cases ht : trail = true
+      · simp only [ht, if_true] at hok ⊢
+        obtain ⟨h1, _, _⟩ := substElems_narrows env elems ih hf' xs 0 es ys hok hp' (Nat.zero_le _) hpc
+        simpa using h1
+      · simp only [ht] at hok ⊢
+        by_cases hl : lead = true
+        · simp only [hl, if_true] at hok ⊢
+          obtain ⟨h1, h2, h3⟩ := substElems_narrows env elems ih hf' xs _ es ys hok hp' (Nat.sub_le _ _) hpc
+          have : ys.length - elems.length = xs.length - elems.length := by omega
+          rw [this]; exact h1
+        · simp only [hl] at hok ⊢
+          obtain ⟨h1, h2, h3⟩ := substElems_narrows env elems ih hf' xs 0 es ys hok hp' (Nat.zero_le _) hpc
+          refine ⟨?_, by simpa using h1⟩
+          -- the validator's "no extra elements" check
+          have hb : lead = false := by simpa using hl
+          have hb2 : trail = false := by simpa using ht
+          subst hb hb2
+          simp only [validateP] at hv
+          split at hv
+          · simp at hv
+          · simp only [Bool.false_and, Bool.false_eq_true, if_false, List.append_eq_nil_iff] at hv
+            have := (extraElems_nil_iff _ _ _ _).1 hv.2
+            omega
+  all_goals (simp [subst, validateP] at hs)
+
+
+/-! #### dicts -/
+
+theorem substFields_cons_ok (env : Env) (k : PyKey) (opt : Bool) (s : Schema) (fs : List (PyKey × Bool × Schema))
+    (kvs : List (PyKey × PyVal)) (r : List (PyKey × Bool × Schema))
+    (h : substFields env ((k, opt, s) :: fs) kvs = .ok r) :
+    ∃ f r', r = f :: r' ∧ substFields env fs kvs = .ok r' ∧
+      ((lookupKey k kvs = some .ellipsis ∧ f = (k, false, s)) ∨
+       (∃ x s', lookupKey k kvs = some x ∧ subst env s x = .ok s' ∧ f = (k, false, s')) ∨
+       (lookupKey k kvs = none ∧ f = (k, opt, s))) := by
+  simp only [substFields, except_bind_ok, except_pure_ok] at h
+  obtain ⟨f, hf, r', hr', rfl⟩ := h
+  refine ⟨f, r', rfl, hr', ?_⟩
+  split at hf
+  · rename_i hl
+    exact Or.inl ⟨hl, ((except_pure_ok _ _).1 hf).symm⟩
+  · rename_i x _ hl
+    obtain ⟨s', hs', hfe⟩ := (except_bind_ok _ _ _).1 hf
+    exact Or.inr (Or.inl ⟨x, s', hl, hs', ((except_pure_ok _ _).1 hfe).symm⟩)
+  · rename_i hl
+    exact Or.inr (Or.inr ⟨hl, ((except_pure_ok _ _).1 hf).symm⟩)
+
+theorem substFields_nil_ok (env : Env) (kvs : List (PyKey × PyVal)) (r : List (PyKey × Bool × Schema))
+    (h : substFields env [] kvs = .ok r) : r = [] := by
+  simpa [substFields, eq_comm] using h
+
+theorem substFields_keys (env : Env) : ∀ (fs : List (PyKey × Bool × Schema)) (kvs : List (PyKey × PyVal))
+    (fs' : List (PyKey × Bool × Schema)), substFields env fs kvs = .ok fs' → fs'.map (·.1) = fs.map (·.1)
+  | [], kvs, fs', h => by rw [substFields_nil_ok env kvs fs' h]
+  | (k, opt, s) :: fs, kvs, fs', h => by
+    obtain ⟨f, r', rfl, hr', hcase⟩ := substFields_cons_ok env k opt s fs kvs fs' h
+    have := substFields_keys env fs kvs r' hr'
+    rcases hcase with ⟨_, rfl⟩ | ⟨x, s', _, _, rfl⟩ | ⟨_, rfl⟩ <;> simp [this]
+
+theorem hasField_congr (k : PyKey) (fs fs' : List (PyKey × Bool × Schema))
+    (h : fs'.map (·.1) = fs.map (·.1)) : hasField k fs' = hasField k fs := by
+  have e : ∀ l : List (PyKey × Bool × Schema), hasField k l = (l.map (·.1)).any (· == k) := by
+    intro l; simp [hasField, List.any_map, Function.comp_def]
+  rw [e, e, h]
+
+theorem substFields_narrows (env : Env) : ∀ (fs : List (PyKey × Bool × Schema))
+    (_ : ∀ f ∈ fs, Narrows env f.2.2) (_ : NoFixedFloatF fs) (kvs : List (PyKey × PyVal))
+    (fs' : List (PyKey × Bool × Schema)) (kws : List (PyKey × PyVal)),
+    substFields env fs kvs = .ok fs' → PlainKV kvs → FieldsC env fs' kws → FieldsC env fs kws
+  | [], _, _, _, _, _, _, _, _ => by simp [FieldsC]
+  | (k, opt, s) :: fs, ih, hf, kvs, fs', kws, h, hp, hc => by
+    obtain ⟨f, r', rfl, hr', hcase⟩ := substFields_cons_ok env k opt s fs kvs fs' h
+    simp only [NoFixedFloatF] at hf
+    have hrest : FieldsC env r' kws → FieldsC env fs kws :=
+      substFields_narrows env fs (fun f hf => ih f (by simp [hf])) hf.2 kvs r' kws hr' hp
+    rcases hcase with ⟨hl, rfl⟩ | ⟨x, s', hl, hs', rfl⟩ | ⟨hl, rfl⟩
+    · exact absurd (lookupKey_plain kvs k _ hp hl) (by simp [Plain])
+    · simp only [FieldsC] at hc ⊢
+      refine ⟨?_, hrest hc.2⟩
+      have h1 := hc.1
+      cases hw : lookupKey k kws with
+      | none => rw [hw] at h1; simp at h1
+      | some y =>
+        rw [hw] at h1
+        exact ih (k, opt, s) (by simp) s' x y hs' (lookupKey_plain kvs k x hp hl) hf.1 h1
+    · simp only [FieldsC] at hc ⊢
+      exact ⟨hc.1, hrest hc.2⟩
+
+theorem dictBody_ok (env : Env) (fs : List (PyKey × Bool × Schema)) (kvs : List (PyKey × PyVal))
+    (ell : Option Nat) (s' : Schema)
+    (h : (do
+        let fs' ← substFields env fs kvs
+        if (kvs.any fun kv => !hasField kv.fst fs) = true then Except.error PyExc.substitutionError
+          else pure (Schema.dict (some fs') ell)) = Except.ok s') :
+    ∃ fs', substFields env fs kvs = .ok fs' ∧ kvs.any (fun kv => !hasField kv.1 fs) = false ∧
+      s' = .dict (some fs') ell := by
+  obtain ⟨fs', hfs, h2⟩ := (except_bind_ok _ _ _).1 h
+  split at h2
+  · cases h2
+  · rename_i hx
+    exact ⟨fs', hfs, by simpa using hx, ((except_pure_ok _ _).1 h2).symm⟩
+
+theorem subst_dict_ok (env : Env) (fs : List (PyKey × Bool × Schema)) (ell : Option Nat)
+    (kvs : List (PyKey × PyVal)) (s' : Schema) (hne : ¬ (fs = [] ∧ ell.isSome))
+    (h : subst env (.dict (some fs) ell) (.dict kvs) = .ok s') :
+    validateP env true (.dict (some fs) ell) (.dict kvs) [] = [] ∧
+    kvs.any (fun kv => kv.1 == PyKey.ellipsis) = false ∧
+    ∃ fs', substFields env fs kvs = .ok fs' ∧ kvs.any (fun kv => !hasField kv.1 fs) = false ∧
+      s' = .dict (some fs') ell := by
+  cases fs with
+  | nil =>
+    cases ell with
+    | some pos => simp at hne
+    | none =>
+      simp only [subst] at h
+      split at h
+      · cases h
+      rename_i hv
+      split at h
+      · cases h
+      rename_i hx
+      exact ⟨by simpa using hv, Bool.eq_false_iff.2 hx, dictBody_ok env _ _ _ _ h⟩
+  | cons f fs =>
+    simp only [subst] at h
+    split at h
+    · cases h
+    rename_i hv
+    split at h
+    · cases h
+    rename_i hx
+    exact ⟨by simpa using hv, Bool.eq_false_iff.2 hx, dictBody_ok env _ _ _ _ h⟩
+
+theorem mapM_fromNative_ok : ∀ (kvs : List (PyKey × PyVal)) (fs : List (PyKey × Bool × Schema)),
+    kvs.mapM (fun kv => do let s ← fromNativeS kv.2; pure (kv.1, false, s)) = Except.ok fs →
+    fromNativeKVs kvs = .ok fs
+  | [], fs, h => by
+    simp only [List.mapM_nil, except_pure_ok] at h
+    subst h; simp [fromNativeKVs]
+  | (k, v) :: r, fs, h => by
+    simp only [List.mapM_cons, except_bind_ok, except_pure_ok, fromNativeS_ok] at h
+    obtain ⟨f, ⟨a, ha, rfl⟩, b, hb, rfl⟩ := h
+    exact (fromNativeKVs_cons_ok _ _ _ _).2 ⟨a, b, ha, mapM_fromNative_ok r b hb, rfl⟩
+
+theorem substFresh_ok (kvs : List (PyKey × PyVal)) (relaxed : Bool) (s' : Schema) (hp : PlainKV kvs)
+    (h : substFresh kvs relaxed = .ok s') :
+    ∃ fs, fromNativeKVs kvs = .ok fs ∧ s' = .dict (some fs) (if relaxed then some kvs.length else none) := by
+  have hne : ∀ kv ∈ kvs, (kv.1 == PyKey.ellipsis) = false := by
+    intro kv hkv
+    have := noEll_of_any kvs (plainKV_noEll kvs hp) kv hkv
+    simpa using this
+  unfold substFresh at h
+  split at h
+  · cases h
+  have h1 : kvs.filter (fun kv => !(kv.1 == PyKey.ellipsis)) = kvs := by
+    apply List.filter_eq_self.2
+    intro kv hkv; simp [hne kv hkv]
+  have h2 : kvs.findIdx? (fun kv => kv.1 == PyKey.ellipsis) = none := by
+    apply List.findIdx?_eq_none_iff.2
+    intro kv hkv; exact hne kv hkv
+  simp only [h1, h2] at h
+  obtain ⟨fs, hfs, h3⟩ := (except_bind_ok _ _ _).1 h
+  have h4 := (except_pure_ok _ _).1 h3
+  exact ⟨fs, mapM_fromNative_ok kvs fs hfs, h4.symm⟩
+
+theorem narrows_dict_none (env : Env) (ell : Option Nat) : Narrows env (.dict none ell) := by
+  intro s' v w hs hp _ hc
+  cases v
+  case dict kvs =>
+    simp only [Plain] at hp
+    simp only [subst] at hs
+    split at hs
+    · cases hs
+    obtain ⟨fs, _, rfl⟩ := substFresh_ok kvs false s' hp hs
+    simp only [Conforms] at hc ⊢
+    obtain ⟨kws, rfl, _⟩ := hc
+    exact ⟨kws, rfl⟩
+  all_goals (simp [subst, validateP] at hs)
+
+theorem narrows_dict_open (env : Env) (pos : Nat) : Narrows env (.dict (some []) (some pos)) := by
+  intro s' v w hs hp _ hc
+  cases v
+  case dict kvs =>
+    simp only [Plain] at hp
+    simp only [subst] at hs
+    split at hs
+    · cases hs
+    obtain ⟨fs, _, rfl⟩ := substFresh_ok kvs true s' hp hs
+    simp only [Conforms] at hc ⊢
+    obtain ⟨kws, rfl, _⟩ := hc
+    exact ⟨kws, rfl, by simp [FieldsC], by simp⟩
+  all_goals (simp [subst, validateP] at hs)
+
+theorem subst_dict_nondict (env : Env) (fs : List (PyKey × Bool × Schema)) (ell : Option Nat) (v : PyVal) (s' : Schema)
+    (h : subst env (.dict (some fs) ell) v = .ok s') : ∃ kvs, v = .dict kvs := by
+  cases v
+  case dict kvs => exact ⟨kvs, rfl⟩
+  all_goals
+    exfalso
+    cases fs with
+    | nil => cases ell <;> simp [subst, validateP] at h
+    | cons f fs => simp [subst, validateP] at h
+
+theorem narrows_dict (env : Env) (fs : List (PyKey × Bool × Schema)) (ell : Option Nat)
+    (hne : ¬ (fs = [] ∧ ell.isSome)) (ih : ∀ f ∈ fs, Narrows env f.2.2) :
+    Narrows env (.dict (some fs) ell) := by
+  intro s' v w hs hp hf hc
+  obtain ⟨kvs, rfl⟩ := subst_dict_nondict env fs ell v s' hs
+  simp only [Plain] at hp
+  simp only [NoFixedFloat] at hf
+  obtain ⟨_, _, fs', hfs, _, rfl⟩ := subst_dict_ok env fs ell kvs s' hne hs
+  simp only [Conforms] at hc ⊢
+  obtain ⟨kws, rfl, hF, hk⟩ := hc
+  refine ⟨kws, rfl, substFields_narrows env fs ih hf kvs fs' kws hfs hp hF, ?_⟩
+  intro he kw hkw
+  rw [← hasField_congr kw.1 fs fs' (substFields_keys env fs kvs fs' hfs)]
+  exact hk he kw hkw
+
+/-! #### any -/
+
+theorem subst_any_ok (env : Env) (ts : List Schema) (v : PyVal) (s' : Schema)
+    (h : subst env (.any (some ts)) v = .ok s') :
+    s' = .any (some (substAlts env ts v)) ∧ validateP env true (.any (some ts)) v [] = [] := by
+  simp only [subst] at h
+  split at h
+  · cases h
+  · rename_i hv
+    cases hs : substAlts env ts v with
+    | nil => rw [hs] at h; cases h
+    | cons a as =>
+      rw [hs] at h
+      simp only [] at h
+      cases h
+      exact ⟨rfl, by simpa using hv⟩
+
+theorem substAlts_narrows (env : Env) : ∀ (ts : List Schema) (_ : ∀ t ∈ ts, Narrows env t)
+    (_ : ∀ t ∈ ts, NoFixedFloat t) (v w : PyVal), Plain v → AnyC env (substAlts env ts v) w → AnyC env ts w
+  | [], _, _, _, _, _, h => by simp [substAlts, AnyC] at h
+  | t :: ts, ih, hf, v, w, hp, h => by
+    have hrest := substAlts_narrows env ts (fun s hs => ih s (by simp [hs])) (fun s hs => hf s (by simp [hs])) v w hp
+    simp only [substAlts] at h
+    simp only [AnyC]
+    cases ho : subst env t v with
+    | error e =>
+      simp only [ho, ok?] at h
+      exact Or.inr (hrest h)
+    | ok r =>
+      simp only [ho, ok?, AnyC] at h
+      rcases h with h | h
+      · exact Or.inl (ih t (by simp) r v w ho hp (hf t (by simp)) h)
+      · exact Or.inr (hrest h)
+
+theorem narrows_any (env : Env) (ts : List Schema) (ih : ∀ t ∈ ts, Narrows env t) :
+    Narrows env (.any (some ts)) := by
+  intro s' v w hs hp hf hc
+  simp only [NoFixedFloat] at hf
+  obtain ⟨rfl, _⟩ := subst_any_ok env ts v s' hs
+  simp only [Conforms] at hc ⊢
+  exact substAlts_narrows env ts ih ((noFixedFloatL_iff ts).1 hf) v w hp hc
+
+/-! #### the induction -/
+
+mutual
+theorem narrows_all (env : Env) : ∀ (s : Schema), Narrows env s
+  | .scalar k => by
+    intro s' v w hs _ hf hc
+    rw [subst] at hs
+    split at hs
+    · rename_i hv
+      cases hs
+      simp only [Conforms] at hc ⊢
+      exact narrows_scalar env k v w (by simpa using hv) hf hc
+    · cases hs
+  | .listU L => narrows_listU env L
+  | .listT t L => narrows_listT env t L (narrows_all env t)
+  | .listE lead es trail L => narrows_listE env lead es trail L (narrows_list env es)
+  | .dict none ell => narrows_dict_none env ell
+  | .dict (some []) (some pos) => narrows_dict_open env pos
+  | .dict (some []) none => narrows_dict env [] none (by simp) (by simp)
+  | .dict (some (f :: fs)) ell => narrows_dict env (f :: fs) ell (by simp) (narrows_fields env (f :: fs))
+  | .any none => by
+    intro s' v w _ _ _ _
+    simp [Conforms]
+  | .any (some ts) => narrows_any env ts (narrows_list env ts)
+  | .alias n t => by
+    intro s' v w hs hp hf hc
+    simp only [subst] at hs
+    obtain ⟨t', ht', rfl⟩ := bind_pure_ok _ _ _ hs
+    simp only [Conforms, NoFixedFloat] at hc hf ⊢
+    exact narrows_all env t t' v w ht' hp hf hc
+  | .custom t => by
+    intro s' v w hs hp hf hc
+    simp only [subst] at hs
+    obtain ⟨t', ht', rfl⟩ := bind_pure_ok _ _ _ hs
+    simp only [Conforms, NoFixedFloat] at hc hf ⊢
+    exact narrows_all env t t' v w ht' hp hf hc
+theorem narrows_list (env : Env) : ∀ (ss : List Schema), ∀ s ∈ ss, Narrows env s
+  | [] => by simp
+  | s :: ss => by
+    intro s' hs'
+    rcases List.mem_cons.1 hs' with h | h
+    · rw [h]; exact narrows_all env s
+    · exact narrows_list env ss s' h
+theorem narrows_fields (env : Env) : ∀ (fs : List (PyKey × Bool × Schema)), ∀ f ∈ fs, Narrows env f.2.2
+  | [] => by simp
+  | (k, o, s) :: fs => by
+    intro f hf
+    rcases List.mem_cons.1 hf with h | h
+    · rw [h]; exact narrows_all env s
+    · exact narrows_fields env fs f h
+end
+
+/-- **C05.** Substitution only narrows: every value accepted by the result of substituting a plain
+    value is accepted by the original schema — bounds, lengths, alphabets, key sets, element types all
+    remain in force. -/
+theorem subst_narrows (env : Env) (s s' : Schema) (v w : PyVal)
+    (hs : subst env s v = .ok s') (hp : Plain v) (hd : DistinctKeys v) (hk : KeysNodupS s) (hf : NoFixedFloat s)
+    (hc : Conforms env s' w) : Conforms env s w := by
+  -- `hd`, `hk` are not needed: narrowing holds key-by-key whatever the duplicates
+  have _ := hd
+  have _ := hk
+  exact narrows_all env s s' v w hs hp hf hc
+
+
+/-! ### K7 witness -/
+
+def k7Env : Env := { rxSearch := fun _ _ => false, fl := PyFloat.fin }
+
+theorem k7_close1 : isclose k7Env (.fin (1 + 9 / 10000000000)) (.fin 1) = true := by decide +kernel
+theorem k7_close2 : isclose k7Env (.fin (1 + 18 / 10000000000)) (.fin (1 + 9 / 10000000000)) = true := by decide +kernel
+theorem k7_far : isclose k7Env (.fin (1 + 18 / 10000000000)) (.fin 1) = false := by decide +kernel
+
+/-- K7 witness: without `NoFixedFloat` narrowing fails — for an environment whose rounding is exact
+    on the numbers involved (`fl = fin`), S = float(1), v = 1 + 9/10^10, w = 1 + 18/10^10 -/
+theorem subst_narrows_float_counterexample :
+    let env : Env := { rxSearch := fun _ _ => false, fl := PyFloat.fin }
+    let s := Schema.scalar (.float (some (.fin 1)) none none none none none)
+    let v := PyVal.float (.fin (1 + 9 / 10000000000))
+    let w := PyVal.float (.fin (1 + 18 / 10000000000))
+    ∃ s', subst env s v = .ok s' ∧ Conforms env s' w ∧ ¬ Conforms env s w := by
+  intro env s v w
+  refine ⟨.scalar (.float (some (.fin (1 + 9 / 10000000000))) none none none none none), ?_, ?_, ?_⟩
+  · show subst k7Env (.scalar (.float (some (.fin 1)) none none none none none))
+      (.float (.fin (1 + 9 / 10000000000))) = _
+    simp [subst, validateScalar, floatValueOk, floatBoundErrs, ScalarS.withValue, k7_close1]
+  · show Conforms k7Env _ (.float (.fin (1 + 18 / 10000000000)))
+    simp [Conforms, ConformsScalar, floatValueOk, k7_close2]
+  · show ¬ Conforms k7Env (.scalar (.float (some (.fin 1)) none none none none none))
+      (.float (.fin (1 + 18 / 10000000000)))
+    simp [Conforms, ConformsScalar, floatValueOk, k7_far]
+
+
+/-! ### C04: the result accepts the substituted value -/
+
+mutual
+/-- no dict schema that has declared keys *and* `...: ...` anywhere (finding K13: substituting a value
+    with undeclared keys into such a dict is refused although the schema accepts the value) -/
+def NoOpenDict : Schema → Prop
+  | .scalar _ => True
+  | .listU _ => True
+  | .listT t _ => NoOpenDict t
+  | .listE _ es _ _ => NoOpenDictL es
+  | .dict none _ => True
+  | .dict (some fs) ell => (fs = [] ∨ ell = none) ∧ NoOpenDictF fs
+  | .any none => True
+  | .any (some ts) => NoOpenDictL ts
+  | .alias _ t => NoOpenDict t
+  | .custom t => NoOpenDict t
+def NoOpenDictL : List Schema → Prop
+  | [] => True
+  | s :: ss => NoOpenDict s ∧ NoOpenDictL ss
+def NoOpenDictF : List (PyKey × Bool × Schema) → Prop
+  | [] => True
+  | (_, _, s) :: fs => NoOpenDict s ∧ NoOpenDictF fs
+end
+
+mutual
+/-- the alternatives of every `any` are free of open dicts (`NoOpenDict`); open dicts outside `any`
+    are allowed (finding K13: inside `any` a refused alternative is silently dropped, and the value may
+    then be left with alternatives that matched only partially) -/
+def NoOpenDictAlt : Schema → Prop
+  | .scalar _ => True
+  | .listU _ => True
+  | .listT t _ => NoOpenDictAlt t
+  | .listE _ es _ _ => NoOpenDictAltL es
+  | .dict none _ => True
+  | .dict (some fs) _ => NoOpenDictAltF fs
+  | .any none => True
+  | .any (some ts) => NoOpenDictL ts ∧ NoOpenDictAltL ts
+  | .alias _ t => NoOpenDictAlt t
+  | .custom t => NoOpenDictAlt t
+def NoOpenDictAltL : List Schema → Prop
+  | [] => True
+  | s :: ss => NoOpenDictAlt s ∧ NoOpenDictAltL ss
+def NoOpenDictAltF : List (PyKey × Bool × Schema) → Prop
+  | [] => True
+  | (_, _, s) :: fs => NoOpenDictAlt s ∧ NoOpenDictAltF fs
+end
+
+theorem noContainsL_iff : ∀ (ss : List Schema), NoContainsL ss ↔ ∀ s ∈ ss, NoContains s
+  | [] => by simp [NoContainsL]
+  | s :: ss => by simp [NoContainsL, noContainsL_iff ss]
+
+theorem noOpenDictL_iff : ∀ (ss : List Schema), NoOpenDictL ss ↔ ∀ s ∈ ss, NoOpenDict s
+  | [] => by simp [NoOpenDictL]
+  | s :: ss => by simp [NoOpenDictL, noOpenDictL_iff ss]
+
+theorem noOpenDictAltL_iff : ∀ (ss : List Schema), NoOpenDictAltL ss ↔ ∀ s ∈ ss, NoOpenDictAlt s
+  | [] => by simp [NoOpenDictAltL]
+  | s :: ss => by simp [NoOpenDictAltL, noOpenDictAltL_iff ss]
+
+theorem noContainsF_iff : ∀ (fs : List (PyKey × Bool × Schema)), NoContainsF fs ↔ ∀ f ∈ fs, NoContains f.2.2
+  | [] => by simp [NoContainsF]
+  | (k, o, s) :: fs => by simp [NoContainsF, noContainsF_iff fs]
+
+theorem noOpenDictF_iff : ∀ (fs : List (PyKey × Bool × Schema)), NoOpenDictF fs ↔ ∀ f ∈ fs, NoOpenDict f.2.2
+  | [] => by simp [NoOpenDictF]
+  | (k, o, s) :: fs => by simp [NoOpenDictF, noOpenDictF_iff fs]
+
+theorem noOpenDictAltF_iff : ∀ (fs : List (PyKey × Bool × Schema)), NoOpenDictAltF fs ↔ ∀ f ∈ fs, NoOpenDictAlt f.2.2
+  | [] => by simp [NoOpenDictAltF]
+  | (k, o, s) :: fs => by simp [NoOpenDictAltF, noOpenDictAltF_iff fs]
+
+/-- the hypotheses on the value -/
+def Good (v : PyVal) : Prop := Plain v ∧ NoNaN v ∧ DistinctKeys v
+
+theorem good_list (xs : List PyVal) : Good (.list xs) ↔ ∀ x ∈ xs, Good x := by
+  simp only [Good, Plain, NoNaN, DistinctKeys, plainL_iff, noNaNL_iff, distinctL_iff]
+  constructor
+  · rintro ⟨h1, h2, h3⟩ x hx; exact ⟨h1 x hx, h2 x hx, h3 x hx⟩
+  · intro h; exact ⟨fun x hx => (h x hx).1, fun x hx => (h x hx).2.1, fun x hx => (h x hx).2.2⟩
+
+theorem good_lookup (kvs : List (PyKey × PyVal)) (k : PyKey) (x : PyVal) (h : Good (.dict kvs))
+    (hl : lookupKey k kvs = some x) : Good x := by
+  simp only [Good, Plain, NoNaN, DistinctKeys] at h
+  exact ⟨lookupKey_plain kvs k x h.1 hl, lookupKey_noNaN kvs k x h.2.1 hl, lookupKey_distinct kvs k x h.2.2.2 hl⟩
+
+/-- "the result of substituting a conforming plain value into `s` accepts the value" -/
+def Accepts (env : Env) (s : Schema) : Prop :=
+  ∀ (s' : Schema) (v : PyVal), subst env s v = .ok s' → Good v → NoContains s → NoOpenDictAlt s →
+    Conforms env s v → Conforms env s' v
+
+/-- "substituting a conforming plain value into `s` succeeds" -/
+def Total (env : Env) (s : Schema) : Prop :=
+  ∀ (v : PyVal), Plain v → NoContains s → NoOpenDict s → Conforms env s v → ∃ s', subst env s v = .ok s'
+
+/-! #### accepts: lists -/
+
+theorem fromNativeListS_conforms (env : Env) (xs : List PyVal) (es : List Schema)
+    (h : fromNativeListS xs = .ok es) (hg : ∀ x ∈ xs, Good x) : PrefixC env es xs :=
+  fromNativeList_conforms env xs es (fromNativeListS_ok xs es h)
+    ((noNaNL_iff xs).2 (fun x hx => (hg x hx).2.1)) ((distinctL_iff xs).2 (fun x hx => (hg x hx).2.2))
+
+theorem substAll_accepts (env : Env) (t : Schema) (ih : Accepts env t) (hnc : NoContains t) (hod : NoOpenDictAlt t) :
+    ∀ (xs : List PyVal) (es : List Schema), substAll env t xs = .ok es → (∀ x ∈ xs, Good x) →
+      AllC env t xs → PrefixC env es xs ∧ xs.length = es.length
+  | [], es, h, _, _ => by
+    have : es = [] := by simpa [substAll, eq_comm] using h
+    subst this; simp [PrefixC]
+  | x :: xs, es, h, hg, hc => by
+    obtain ⟨a, b, ha, hb, rfl⟩ := (substAll_cons_ok _ _ _ _ _).1 h
+    simp only [AllC] at hc
+    have := substAll_accepts env t ih hnc hod xs b hb (fun z hz => hg z (by simp [hz])) hc.2
+    simp only [PrefixC, List.length_cons]
+    exact ⟨⟨ih a x ha (hg x (by simp)) hnc hod hc.1, this.1⟩, by omega⟩
+
+theorem substZip_accepts (env : Env) : ∀ (ss : List Schema) (_ : ∀ s ∈ ss, Accepts env s)
+    (_ : ∀ s ∈ ss, NoContains s) (_ : ∀ s ∈ ss, NoOpenDictAlt s) (zs : List PyVal) (mid suf : List Schema),
+    substZip env ss zs = .ok mid → fromNativeListS (zs.drop ss.length) = .ok suf → (∀ x ∈ zs, Good x) →
+    PrefixC env ss zs → PrefixC env (mid ++ suf) zs ∧ (mid ++ suf).length = zs.length
+  | [], _, _, _, zs, mid, suf, h, hsuf, hg, _ => by
+    have : mid = [] := by simpa [substZip, eq_comm] using h
+    subst this
+    simp only [List.length_nil, List.drop_zero] at hsuf
+    simp only [List.nil_append]
+    exact ⟨fromNativeListS_conforms env zs suf hsuf hg, fromNativeListS_length zs suf hsuf⟩
+  | _ :: _, _, _, _, [], _, _, h, _, _, _ => by simp [substZip] at h
+  | s :: ss, ih, hnc, hod, z :: zs, mid, suf, h, hsuf, hg, hc => by
+    obtain ⟨a, b, ha, hb, rfl⟩ := (substZip_cons_ok _ _ _ _ _ _).1 h
+    simp only [PrefixC] at hc
+    simp only [List.length_cons, List.drop_succ_cons] at hsuf
+    have := substZip_accepts env ss (fun s hs => ih s (by simp [hs])) (fun s hs => hnc s (by simp [hs]))
+      (fun s hs => hod s (by simp [hs])) zs b suf hb hsuf (fun x hx => hg x (by simp [hx])) hc.2
+    simp only [List.cons_append, PrefixC, List.length_cons]
+    exact ⟨⟨ih s (by simp) a z ha (hg z (by simp)) (hnc s (by simp)) (hod s (by simp)) hc.1, this.1⟩, by omega⟩
+
+theorem pre_accepts (env : Env) : ∀ (ps : List PyVal) (pre rest : List Schema) (zs : List PyVal),
+    fromNativeListS ps = .ok pre → (∀ x ∈ ps, Good x) → PrefixC env rest zs → PrefixC env (pre ++ rest) (ps ++ zs)
+  | [], pre, rest, zs, h, _, hc => by
+    rw [fromNativeListS_nil pre h]; simpa using hc
+  | p :: ps, pre, rest, zs, h, hg, hc => by
+    obtain ⟨a, b, ha, hb, rfl⟩ := (fromNativeListS_cons_ok _ _ _).1 h
+    simp only [List.cons_append, PrefixC]
+    exact ⟨fromNative_conforms env p a ha (hg p (by simp)).2.1 (hg p (by simp)).2.2,
+      pre_accepts env ps b rest zs hb (fun x hx => hg x (by simp [hx])) hc⟩
+
+theorem substElems_accepts (env : Env) (elems : List Schema) (ih : ∀ s ∈ elems, Accepts env s)
+    (hnc : ∀ s ∈ elems, NoContains s) (hod : ∀ s ∈ elems, NoOpenDictAlt s)
+    (xs : List PyVal) (start : Nat) (es : List Schema)
+    (h : substElems env elems xs start = .ok es) (hg : ∀ x ∈ xs, Good x) (hstart : start ≤ xs.length)
+    (hc : PrefixC env elems (xs.drop start)) : PrefixC env es xs ∧ xs.length = es.length := by
+  obtain ⟨mid, suf, pre, hmid, hsuf, hpre, rfl⟩ := (substElems_ok _ _ _ _ _).1 h
+  have hsuf' : fromNativeListS ((xs.drop start).drop elems.length) = .ok suf := by
+    rw [List.drop_drop]; exact hsuf
+  obtain ⟨h1, h2⟩ := substZip_accepts env elems ih hnc hod (xs.drop start) mid suf hmid hsuf'
+    (fun x hx => hg x (List.mem_of_mem_drop hx)) hc
+  have h3 := pre_accepts env (xs.take start) pre (mid ++ suf) (xs.drop start) hpre
+    (fun x hx => hg x (List.mem_of_mem_take hx)) h1
+  rw [List.take_append_drop] at h3
+  have hl1 := fromNativeListS_length _ _ hpre
+  simp only [List.length_take, List.length_drop, List.length_append] at hl1 h2 ⊢
+  rw [List.append_assoc]
+  exact ⟨h3, by omega⟩
+
+
+theorem accepts_scalar (env : Env) (k : ScalarS) : Accepts env (.scalar k) := by
+  intro s' v hs hg _ _ hc
+  rw [subst] at hs
+  split at hs
+  · cases hs
+    simp only [Conforms] at hc ⊢
+    have hv := (validateScalar_nil_iff env k v []).2 hc
+    exact (validateScalar_nil_iff env _ v []).1 (validateScalar_withValue env k v [] hg.2.1 hv)
+  · cases hs
+
+theorem accepts_listU (env : Env) (L : LenP) : Accepts env (.listU L) := by
+  intro s' v hs hg _ _ hc
+  cases v
+  case list xs =>
+    have hg' := (good_list xs).1 hg
+    obtain ⟨_, es, hes, rfl⟩ := subst_listU_ok env L xs s' (fun x hx => (hg' x hx).1) hs
+    simp only [Conforms] at hc
+    obtain ⟨ys, hy, hL⟩ := hc
+    cases hy
+    exact (conforms_exact_list _ _ _ _).2 ⟨xs, rfl, hL, (fromNativeListS_length xs es hes).symm,
+      fromNativeListS_conforms env xs es hes hg'⟩
+  all_goals (simp [subst, validateP] at hs)
+
+theorem accepts_listT (env : Env) (t : Schema) (L : LenP) (ih : Accepts env t) : Accepts env (.listT t L) := by
+  intro s' v hs hg hnc hod hc
+  cases v
+  case list xs =>
+    have hg' := (good_list xs).1 hg
+    simp only [NoContains, NoOpenDictAlt] at hnc hod
+    obtain ⟨_, es, hes, rfl⟩ := subst_listT_ok env t L xs s' (fun x hx => (hg' x hx).1) hs
+    simp only [Conforms] at hc
+    obtain ⟨ys, hy, hL, hA⟩ := hc
+    cases hy
+    obtain ⟨h1, h2⟩ := substAll_accepts env t ih hnc hod xs es hes hg' hA
+    exact (conforms_exact_list _ _ _ _).2 ⟨xs, rfl, hL, h2, h1⟩
+  all_goals (simp [subst, validateP] at hs)
+
+theorem accepts_listE (env : Env) (lead : Bool) (elems : List Schema) (trail : Bool) (L : LenP)
+    (ih : ∀ s ∈ elems, Accepts env s) : Accepts env (.listE lead elems trail L) := by
+  intro s' v hs hg hnc hod hc
+  cases v
+  case list xs =>
+    have hg' := (good_list xs).1 hg
+    simp only [NoContains, NoOpenDictAlt] at hnc hod
+    have hnc' := (noContainsL_iff elems).1 hnc.2
+    have hod' := (noOpenDictAltL_iff elems).1 hod
+    obtain ⟨_, es, rfl, hcase⟩ := subst_listE_ok env lead elems trail L xs s' hs
+    simp only [Conforms] at hc
+    obtain ⟨ys, hy, hL, hif⟩ := hc
+    cases hy
+    rw [if_neg hnc.1] at hif
+    rcases hcase with ⟨hl, ht, hne, _⟩ | ⟨_, hok⟩
+    · exact absurd ⟨hl, ht, hne⟩ hnc.1
+    · have key : ∀ start, start ≤ xs.length → substElems env elems xs start = .ok es →
+          PrefixC env elems (xs.drop start) → Conforms env (.listE false es false L) (.list xs) := by
+        intro start hst hok hp
+        obtain ⟨h1, h2⟩ := substElems_accepts env elems ih hnc' hod' xs start es hok hg' hst hp
+        exact (conforms_exact_list _ _ _ _).2 ⟨xs, rfl, hL, h2, h1⟩
+      by_cases ht : trail = true
+      · simp only [ht, if_true] at hok hif
+        exact key 0 (Nat.zero_le _) hok (by simpa using hif)
+      · simp only [ht] at hok hif
+        by_cases hl : lead = true
+        · simp only [hl, if_true] at hok hif
+          exact key _ (Nat.sub_le _ _) hok hif
+        · simp only [hl] at hok hif
+          exact key 0 (Nat.zero_le _) hok (by simpa using hif.2)
+  all_goals (simp [subst, validateP] at hs)
+
+/-! #### accepts: dicts, any -/
+
+theorem substFields_accepts (env : Env) : ∀ (fs : List (PyKey × Bool × Schema))
+    (_ : ∀ f ∈ fs, Accepts env f.2.2) (_ : ∀ f ∈ fs, NoContains f.2.2) (_ : ∀ f ∈ fs, NoOpenDictAlt f.2.2)
+    (kvs : List (PyKey × PyVal)) (fs' : List (PyKey × Bool × Schema)),
+    substFields env fs kvs = .ok fs' → Good (.dict kvs) → FieldsC env fs kvs → FieldsC env fs' kvs
+  | [], _, _, _, kvs, fs', h, _, _ => by
+    rw [substFields_nil_ok env kvs fs' h]; simp [FieldsC]
+  | (k, opt, s) :: fs, ih, hnc, hod, kvs, fs', h, hg, hc => by
+    obtain ⟨f, r', rfl, hr', hcase⟩ := substFields_cons_ok env k opt s fs kvs fs' h
+    simp only [FieldsC] at hc
+    have hrest : FieldsC env r' kvs :=
+      substFields_accepts env fs (fun f hf => ih f (by simp [hf])) (fun f hf => hnc f (by simp [hf]))
+        (fun f hf => hod f (by simp [hf])) kvs r' hr' hg hc.2
+    have h1 := hc.1
+    rcases hcase with ⟨hl, rfl⟩ | ⟨x, s', hl, hs', rfl⟩ | ⟨hl, rfl⟩
+    · exact absurd (good_lookup kvs k _ hg hl).1 (by simp [Plain])
+    · simp only [FieldsC]
+      rw [hl] at h1 ⊢
+      exact ⟨ih (k, opt, s) (by simp) s' x hs' (good_lookup kvs k x hg hl) (hnc (k, opt, s) (by simp))
+        (hod (k, opt, s) (by simp)) h1, hrest⟩
+    · simp only [FieldsC]
+      exact ⟨h1, hrest⟩
+
+theorem conforms_fromNativeKVs (env : Env) (kvs : List (PyKey × PyVal)) (fs : List (PyKey × Bool × Schema))
+    (ell : Option Nat) (hf : fromNativeKVs kvs = .ok fs) (hg : Good (.dict kvs)) :
+    Conforms env (.dict (some fs) ell) (.dict kvs) := by
+  simp only [Good, Plain, NoNaN, DistinctKeys] at hg
+  simp only [Conforms]
+  exact ⟨kvs, rfl, fromNativeKVs_conforms env kvs fs kvs hf hg.2.1 hg.2.2.2 (lookupKey_of_nodup kvs hg.2.2.1),
+    fun _ => fromNativeKVs_hasField kvs fs hf⟩
+
+theorem accepts_dict_none (env : Env) (ell : Option Nat) : Accepts env (.dict none ell) := by
+  intro s' v hs hg _ _ hc
+  cases v
+  case dict kvs =>
+    simp only [subst] at hs
+    split at hs
+    · cases hs
+    obtain ⟨fs, hfs, rfl⟩ := substFresh_ok kvs false s' hg.1 hs
+    exact conforms_fromNativeKVs env kvs fs _ hfs hg
+  all_goals (simp [subst, validateP] at hs)
+
+theorem accepts_dict_open (env : Env) (pos : Nat) : Accepts env (.dict (some []) (some pos)) := by
+  intro s' v hs hg _ _ hc
+  cases v
+  case dict kvs =>
+    simp only [subst] at hs
+    split at hs
+    · cases hs
+    obtain ⟨fs, hfs, rfl⟩ := substFresh_ok kvs true s' hg.1 hs
+    exact conforms_fromNativeKVs env kvs fs _ hfs hg
+  all_goals (simp [subst, validateP] at hs)
+
+theorem accepts_dict (env : Env) (fs : List (PyKey × Bool × Schema)) (ell : Option Nat)
+    (hne : ¬ (fs = [] ∧ ell.isSome)) (ih : ∀ f ∈ fs, Accepts env f.2.2) :
+    Accepts env (.dict (some fs) ell) := by
+  intro s' v hs hg hnc hod hc
+  obtain ⟨kvs, rfl⟩ := subst_dict_nondict env fs ell v s' hs
+  simp only [NoContains, NoOpenDictAlt] at hnc hod
+  obtain ⟨_, _, fs', hfs, _, rfl⟩ := subst_dict_ok env fs ell kvs s' hne hs
+  simp only [Conforms] at hc ⊢
+  obtain ⟨kws, hk, hF, hkeys⟩ := hc
+  cases hk
+  refine ⟨kvs, rfl, substFields_accepts env fs ih ((noContainsF_iff fs).1 hnc) ((noOpenDictAltF_iff fs).1 hod)
+    kvs fs' hfs hg hF, ?_⟩
+  intro he kv hkv
+  rw [hasField_congr kv.1 fs fs' (substFields_keys env fs kvs fs' hfs)]
+  exact hkeys he kv hkv
+
+theorem accepts_any_none (env : Env) : Accepts env (.any none) := by
+  intro s' v hs hg _ _ _
+  simp only [subst] at hs
+  obtain ⟨s0, h0, rfl⟩ := bind_pure_ok _ _ _ hs
+  simp only [Conforms, AnyC]
+  exact Or.inl (fromNative_conforms env v s0 ((fromNativeS_ok _ _).1 h0) hg.2.1 hg.2.2)
+
+theorem substAlts_accepts (env : Env) : ∀ (ts : List Schema) (_ : ∀ t ∈ ts, Accepts env t) (_ : ∀ t ∈ ts, Total env t)
+    (_ : ∀ t ∈ ts, NoContains t) (_ : ∀ t ∈ ts, NoOpenDict t) (_ : ∀ t ∈ ts, NoOpenDictAlt t) (v : PyVal),
+    Good v → AnyC env ts v → AnyC env (substAlts env ts v) v
+  | [], _, _, _, _, _, _, _, h => by simp [AnyC] at h
+  | t :: ts, ih, tot, hnc, hod, hoa, v, hg, h => by
+    have hrest := substAlts_accepts env ts (fun s hs => ih s (by simp [hs])) (fun s hs => tot s (by simp [hs]))
+      (fun s hs => hnc s (by simp [hs])) (fun s hs => hod s (by simp [hs])) (fun s hs => hoa s (by simp [hs])) v hg
+    simp only [AnyC] at h
+    simp only [substAlts]
+    cases ho : subst env t v with
+    | error e =>
+      simp only [ok?]
+      rcases h with h | h
+      · obtain ⟨r, hr⟩ := tot t (by simp) v hg.1 (hnc t (by simp)) (hod t (by simp)) h
+        rw [hr] at ho; cases ho
+      · exact hrest h
+    | ok r =>
+      simp only [ok?, AnyC]
+      rcases h with h | h
+      · exact Or.inl (ih t (by simp) r v ho hg (hnc t (by simp)) (hoa t (by simp)) h)
+      · exact Or.inr (hrest h)
+
+theorem accepts_any (env : Env) (ts : List Schema) (ih : ∀ t ∈ ts, Accepts env t) (tot : ∀ t ∈ ts, Total env t) :
+    Accepts env (.any (some ts)) := by
+  intro s' v hs hg hnc hod hc
+  simp only [NoContains, NoOpenDictAlt] at hnc hod
+  obtain ⟨rfl, _⟩ := subst_any_ok env ts v s' hs
+  simp only [Conforms] at hc ⊢
+  exact substAlts_accepts env ts ih tot ((noContainsL_iff ts).1 hnc) ((noOpenDictL_iff ts).1 hod.1)
+    ((noOpenDictAltL_iff ts).1 hod.2) v hg hc
+
+
+/-! #### totality: substituting a conforming plain value succeeds -/
+
+theorem fromNativeListS_total : ∀ (xs : List PyVal), (∀ x ∈ xs, Plain x) → ∃ es, fromNativeListS xs = .ok es
+  | [], _ => ⟨[], by simp [fromNativeListS]⟩
+  | x :: xs, h => by
+    obtain ⟨a, ha⟩ := fromNative_total x (h x (by simp))
+    obtain ⟨b, hb⟩ := fromNativeListS_total xs (fun z hz => h z (by simp [hz]))
+    exact ⟨_, (fromNativeListS_cons_ok _ _ _).2 ⟨a, b, ha, hb, rfl⟩⟩
+
+theorem substAll_total (env : Env) (t : Schema) (ih : Total env t) (hnc : NoContains t) (hod : NoOpenDict t) :
+    ∀ (xs : List PyVal), (∀ x ∈ xs, Plain x) → AllC env t xs → ∃ es, substAll env t xs = .ok es
+  | [], _, _ => ⟨[], by simp [substAll]⟩
+  | x :: xs, hp, hc => by
+    simp only [AllC] at hc
+    obtain ⟨a, ha⟩ := ih x (hp x (by simp)) hnc hod hc.1
+    obtain ⟨b, hb⟩ := substAll_total env t ih hnc hod xs (fun z hz => hp z (by simp [hz])) hc.2
+    exact ⟨_, (substAll_cons_ok _ _ _ _ _).2 ⟨a, b, ha, hb, rfl⟩⟩
+
+theorem substZip_total (env : Env) : ∀ (ss : List Schema) (_ : ∀ s ∈ ss, Total env s)
+    (_ : ∀ s ∈ ss, NoContains s) (_ : ∀ s ∈ ss, NoOpenDict s) (zs : List PyVal),
+    (∀ x ∈ zs, Plain x) → PrefixC env ss zs → ∃ mid, substZip env ss zs = .ok mid
+  | [], _, _, _, _, _, _ => ⟨[], by simp [substZip]⟩
+  | _ :: _, _, _, _, [], _, h => by simp [PrefixC] at h
+  | s :: ss, ih, hnc, hod, z :: zs, hp, hc => by
+    simp only [PrefixC] at hc
+    obtain ⟨a, ha⟩ := ih s (by simp) z (hp z (by simp)) (hnc s (by simp)) (hod s (by simp)) hc.1
+    obtain ⟨b, hb⟩ := substZip_total env ss (fun s hs => ih s (by simp [hs])) (fun s hs => hnc s (by simp [hs]))
+      (fun s hs => hod s (by simp [hs])) zs (fun x hx => hp x (by simp [hx])) hc.2
+    exact ⟨_, (substZip_cons_ok _ _ _ _ _ _).2 ⟨a, b, ha, hb, rfl⟩⟩
+
+theorem substElems_total (env : Env) (elems : List Schema) (ih : ∀ s ∈ elems, Total env s)
+    (hnc : ∀ s ∈ elems, NoContains s) (hod : ∀ s ∈ elems, NoOpenDict s) (xs : List PyVal) (start : Nat)
+    (hp : ∀ x ∈ xs, Plain x) (hc : PrefixC env elems (xs.drop start)) :
+    ∃ es, substElems env elems xs start = .ok es := by
+  obtain ⟨mid, hmid⟩ := substZip_total env elems ih hnc hod (xs.drop start)
+    (fun x hx => hp x (List.mem_of_mem_drop hx)) hc
+  obtain ⟨suf, hsuf⟩ := fromNativeListS_total (xs.drop (start + elems.length))
+    (fun x hx => hp x (List.mem_of_mem_drop hx))
+  obtain ⟨pre, hpre⟩ := fromNativeListS_total (xs.take start) (fun x hx => hp x (List.mem_of_mem_take hx))
+  exact ⟨_, (substElems_ok _ _ _ _ _).2 ⟨mid, suf, pre, hmid, hsuf, hpre, rfl⟩⟩
+
+theorem plain_allEll (xs : List PyVal) (hp : ∀ x ∈ xs, Plain x) : (!xs.isEmpty && xs.all isEllipsis) = false := by
+  cases xs with
+  | nil => simp
+  | cons x xs => simp [plain_not_ell x (hp x (by simp))]
+
+theorem plain_anyEll (xs : List PyVal) (hp : ∀ x ∈ xs, Plain x) : xs.any isEllipsis = false := by
+  rw [List.any_eq_false]
+  intro x hx
+  simp [plain_not_ell x (hp x hx)]
+
+theorem validateTrue_of_conforms (env : Env) (s : Schema) (v : PyVal) (h : Conforms env s v) :
+    validateP env true s v [] = [] :=
+  subV env s v [] ((validateP_nil_iff env s v []).2 h)
+
+theorem total_scalar (env : Env) (k : ScalarS) : Total env (.scalar k) := by
+  intro v _ _ _ hc
+  simp only [Conforms] at hc
+  rw [subst, (validateScalar_nil_iff env k v []).2 hc]
+  exact ⟨_, rfl⟩
+
+theorem total_listU (env : Env) (L : LenP) : Total env (.listU L) := by
+  intro v hp _ _ hc
+  have hv := validateTrue_of_conforms env _ v hc
+  simp only [Conforms] at hc
+  obtain ⟨xs, rfl, _⟩ := hc
+  have hp' := (plainL_iff xs).1 (by simpa [Plain] using hp)
+  obtain ⟨es, hes⟩ := fromNativeListS_total xs hp'
+  simp only [subst]
+  rw [hv, plain_allEll xs hp', plain_anyEll _ (fun x hx => hp' x (List.mem_of_mem_drop (List.dropLast_subset _ hx))),
+    stripEll_plain xs hp', hes]
+  exact ⟨_, rfl⟩
+
+theorem total_listT (env : Env) (t : Schema) (L : LenP) (ih : Total env t) : Total env (.listT t L) := by
+  intro v hp hnc hod hc
+  have hv := validateTrue_of_conforms env _ v hc
+  simp only [Conforms, NoContains, NoOpenDict] at hc hnc hod
+  obtain ⟨xs, rfl, _, hA⟩ := hc
+  have hp' := (plainL_iff xs).1 (by simpa [Plain] using hp)
+  obtain ⟨es, hes⟩ := substAll_total env t ih hnc hod xs hp' hA
+  simp only [subst]
+  rw [hv, plain_allEll xs hp', plain_anyEll _ (fun x hx => hp' x (List.mem_of_mem_drop (List.dropLast_subset _ hx))),
+    stripEll_plain xs hp', hes]
+  exact ⟨_, rfl⟩
+
+theorem total_listE (env : Env) (lead : Bool) (elems : List Schema) (trail : Bool) (L : LenP)
+    (ih : ∀ s ∈ elems, Total env s) : Total env (.listE lead elems trail L) := by
+  intro v hp hnc hod hc
+  have hv := validateTrue_of_conforms env _ v hc
+  simp only [Conforms, NoContains, NoOpenDict] at hc hnc hod
+  obtain ⟨xs, rfl, _, hif⟩ := hc
+  have hp' := (plainL_iff xs).1 (by simpa [Plain] using hp)
+  have hnc' := (noContainsL_iff elems).1 hnc.2
+  have hod' := (noOpenDictL_iff elems).1 hod
+  rw [if_neg hnc.1] at hif
+  have hcond : (lead && trail && !elems.isEmpty) = false := by
+    have := hnc.1
+    cases lead <;> cases trail <;> simp_all
+  simp only [subst]
+  rw [hv, plain_allEll xs hp', plain_anyEll xs hp', hcond]
+  simp only [List.isEmpty_nil, Bool.not_true, Bool.false_eq_true, if_false]
+  by_cases ht : trail = true
+  · simp only [ht, if_true] at hif ⊢
+    obtain ⟨es, hes⟩ := substElems_total env elems ih hnc' hod' xs 0 hp' (by simpa using hif)
+    rw [hes]; exact ⟨_, rfl⟩
+  · simp only [ht] at hif ⊢
+    by_cases hl : lead = true
+    · simp only [hl, if_true] at hif ⊢
+      obtain ⟨es, hes⟩ := substElems_total env elems ih hnc' hod' xs _ hp' hif
+      rw [hes]; exact ⟨_, rfl⟩
+    · simp only [hl] at hif ⊢
+      obtain ⟨es, hes⟩ := substElems_total env elems ih hnc' hod' xs 0 hp' (by simpa using hif.2)
+      rw [hes]; exact ⟨_, rfl⟩
+
+
+theorem substFields_total (env : Env) : ∀ (fs : List (PyKey × Bool × Schema))
+    (_ : ∀ f ∈ fs, Total env f.2.2) (_ : ∀ f ∈ fs, NoContains f.2.2) (_ : ∀ f ∈ fs, NoOpenDict f.2.2)
+    (kvs : List (PyKey × PyVal)), PlainKV kvs → FieldsC env fs kvs → ∃ fs', substFields env fs kvs = .ok fs'
+  | [], _, _, _, _, _, _ => ⟨[], by simp [substFields]⟩
+  | (k, opt, s) :: fs, ih, hnc, hod, kvs, hp, hc => by
+    simp only [FieldsC] at hc
+    obtain ⟨r', hr'⟩ := substFields_total env fs (fun f hf => ih f (by simp [hf])) (fun f hf => hnc f (by simp [hf]))
+      (fun f hf => hod f (by simp [hf])) kvs hp hc.2
+    have h1 := hc.1
+    simp only [substFields, hr']
+    split
+    · exact ⟨_, rfl⟩
+    · rename_i x _ hl
+      rw [hl] at h1
+      obtain ⟨s', hs'⟩ := ih (k, opt, s) (by simp) x (lookupKey_plain kvs k x hp hl) (hnc (k, opt, s) (by simp))
+        (hod (k, opt, s) (by simp)) h1
+      rw [hs']; exact ⟨_, rfl⟩
+    · exact ⟨_, rfl⟩
+
+theorem mapM_fromNative_total : ∀ (kvs : List (PyKey × PyVal)) (fs : List (PyKey × Bool × Schema)),
+    fromNativeKVs kvs = .ok fs →
+    kvs.mapM (fun kv => do let s ← fromNativeS kv.2; pure (kv.1, false, s)) = Except.ok fs
+  | [], fs, h => by
+    simp [fromNativeKVs] at h; subst h; simp [List.mapM_nil, pure, Except.pure]
+  | (k, v) :: r, fs, h => by
+    obtain ⟨a, b, ha, hb, rfl⟩ := (fromNativeKVs_cons_ok _ _ _ _).1 h
+    simp only [List.mapM_cons, except_bind_ok, except_pure_ok, fromNativeS_ok]
+    exact ⟨(k, false, a), ⟨a, ha, rfl⟩, b, mapM_fromNative_total r b hb, rfl⟩
+
+theorem substFresh_total (kvs : List (PyKey × PyVal)) (relaxed : Bool) (hp : PlainKV kvs) :
+    ∃ s', substFresh kvs relaxed = .ok s' := by
+  have hne : ∀ kv ∈ kvs, (kv.1 == PyKey.ellipsis) = false := by
+    intro kv hkv
+    have := noEll_of_any kvs (plainKV_noEll kvs hp) kv hkv
+    simpa using this
+  have hpv : ∀ kv ∈ kvs, isEllipsis kv.2 = false := by
+    intro kv hkv
+    have hn := lookupKey_of_nodup
+    clear hn
+    induction kvs with
+    | nil => simp at hkv
+    | cons kv0 r ihr =>
+      obtain ⟨k0, v0⟩ := kv0
+      simp only [PlainKV] at hp
+      rcases List.mem_cons.1 hkv with rfl | h
+      · exact plain_not_ell _ hp.2.1
+      · exact ihr hp.2.2 (fun kv hkv => hne kv (by simp [hkv])) h
+  obtain ⟨fs, hfs⟩ := fromNativeKVs_total kvs hp
+  have h0 : kvs.any (fun kv => (kv.1 == PyKey.ellipsis) != isEllipsis kv.2) = false := by
+    rw [List.any_eq_false]
+    intro kv hkv
+    simp [hne kv hkv, hpv kv hkv]
+  have h1 : kvs.filter (fun kv => !(kv.1 == PyKey.ellipsis)) = kvs := by
+    apply List.filter_eq_self.2
+    intro kv hkv; simp [hne kv hkv]
+  have h2 : kvs.findIdx? (fun kv => kv.1 == PyKey.ellipsis) = none := by
+    apply List.findIdx?_eq_none_iff.2
+    intro kv hkv; exact hne kv hkv
+  unfold substFresh
+  simp only [h0, h1, h2, mapM_fromNative_total kvs fs hfs, Bool.false_eq_true, if_false]
+  exact ⟨_, rfl⟩
+
+theorem total_dict_none (env : Env) (ell : Option Nat) : Total env (.dict none ell) := by
+  intro v hp _ _ hc
+  have hv := validateTrue_of_conforms env _ v hc
+  simp only [Conforms] at hc
+  obtain ⟨kvs, rfl⟩ := hc
+  simp only [subst]
+  rw [hv]
+  exact substFresh_total kvs false (by simpa [Plain] using hp)
+
+theorem total_dict_open (env : Env) (pos : Nat) : Total env (.dict (some []) (some pos)) := by
+  intro v hp _ _ hc
+  have hv := validateTrue_of_conforms env _ v hc
+  simp only [Conforms] at hc
+  obtain ⟨kvs, rfl, _⟩ := hc
+  simp only [subst]
+  rw [hv]
+  exact substFresh_total kvs true (by simpa [Plain] using hp)
+
+theorem total_dict (env : Env) (fs : List (PyKey × Bool × Schema)) (ell : Option Nat)
+    (hne : ¬ (fs = [] ∧ ell.isSome)) (ih : ∀ f ∈ fs, Total env f.2.2) :
+    Total env (.dict (some fs) ell) := by
+  intro v hp hnc hod hc
+  have hv := validateTrue_of_conforms env _ v hc
+  simp only [Conforms, NoContains, NoOpenDict] at hc hnc hod
+  obtain ⟨kvs, rfl, hF, hkeys⟩ := hc
+  have hp' : PlainKV kvs := by simpa [Plain] using hp
+  have hell : ell = none := by
+    rcases hod.1 with h | h
+    · cases ell with
+      | none => rfl
+      | some p => exact absurd ⟨h, rfl⟩ hne
+    · exact h
+  obtain ⟨fs', hfs'⟩ := substFields_total env fs ih ((noContainsF_iff fs).1 hnc) ((noOpenDictF_iff fs).1 hod.2) kvs hp' hF
+  have hx : kvs.any (fun kv => !hasField kv.1 fs) = false := by
+    rw [List.any_eq_false]
+    intro kv hkv
+    simp [hkeys hell kv hkv]
+  cases fs with
+  | nil =>
+    subst hell
+    simp only [subst]
+    rw [hv, plainKV_noEll kvs hp', hfs']
+    simp only [List.isEmpty_nil, Bool.not_true, Bool.false_eq_true, if_false]
+    simp only [bind, Except.bind, hx, Bool.false_eq_true, if_false]
+    exact ⟨_, rfl⟩
+  | cons f fs =>
+    simp only [subst]
+    rw [hv, plainKV_noEll kvs hp', hfs']
+    simp only [List.isEmpty_nil, Bool.not_true, Bool.false_eq_true, if_false]
+    simp only [bind, Except.bind, hx, Bool.false_eq_true, if_false]
+    exact ⟨_, rfl⟩
+
+theorem total_any_none (env : Env) : Total env (.any none) := by
+  intro v hp _ _ _
+  obtain ⟨s0, h0⟩ := fromNative_total v hp
+  simp only [subst, (fromNativeS_ok v s0).2 h0]
+  exact ⟨_, rfl⟩
+
+theorem substAlts_ne_nil (env : Env) : ∀ (ts : List Schema) (_ : ∀ t ∈ ts, Total env t)
+    (_ : ∀ t ∈ ts, NoContains t) (_ : ∀ t ∈ ts, NoOpenDict t) (v : PyVal),
+    Plain v → AnyC env ts v → substAlts env ts v ≠ []
+  | [], _, _, _, _, _, h => by simp [AnyC] at h
+  | t :: ts, tot, hnc, hod, v, hp, h => by
+    simp only [AnyC] at h
+    simp only [substAlts]
+    cases ho : subst env t v with
+    | ok r => simp [ok?]
+    | error e =>
+      simp only [ok?]
+      rcases h with h | h
+      · obtain ⟨r, hr⟩ := tot t (by simp) v hp (hnc t (by simp)) (hod t (by simp)) h
+        rw [hr] at ho; cases ho
+      · exact substAlts_ne_nil env ts (fun s hs => tot s (by simp [hs])) (fun s hs => hnc s (by simp [hs]))
+          (fun s hs => hod s (by simp [hs])) v hp h
+
+theorem total_any (env : Env) (ts : List Schema) (ih : ∀ t ∈ ts, Total env t) : Total env (.any (some ts)) := by
+  intro v hp hnc hod hc
+  have hv := validateTrue_of_conforms env _ v hc
+  simp only [Conforms, NoContains, NoOpenDict] at hc hnc hod
+  have hne := substAlts_ne_nil env ts ih ((noContainsL_iff ts).1 hnc) ((noOpenDictL_iff ts).1 hod) v hp hc
+  simp only [subst]
+  rw [hv]
+  cases hs : substAlts env ts v with
+  | nil => exact absurd hs hne
+  | cons a as => exact ⟨_, rfl⟩
+
+mutual
+theorem total_all (env : Env) : ∀ (s : Schema), Total env s
+  | .scalar k => total_scalar env k
+  | .listU L => total_listU env L
+  | .listT t L => total_listT env t L (total_all env t)
+  | .listE lead es trail L => total_listE env lead es trail L (total_list env es)
+  | .dict none ell => total_dict_none env ell
+  | .dict (some []) (some pos) => total_dict_open env pos
+  | .dict (some []) none => total_dict env [] none (by simp) (by simp)
+  | .dict (some (f :: fs)) ell => total_dict env (f :: fs) ell (by simp) (total_fields env (f :: fs))
+  | .any none => total_any_none env
+  | .any (some ts) => total_any env ts (total_list env ts)
+  | .alias n t => by
+    intro v hp hnc hod hc
+    simp only [Conforms, NoContains, NoOpenDict] at hc hnc hod
+    obtain ⟨t', ht'⟩ := total_all env t v hp hnc hod hc
+    simp only [subst, ht']
+    exact ⟨_, rfl⟩
+  | .custom t => by
+    intro v hp hnc hod hc
+    simp only [Conforms, NoContains, NoOpenDict] at hc hnc hod
+    obtain ⟨t', ht'⟩ := total_all env t v hp hnc hod hc
+    simp only [subst, ht']
+    exact ⟨_, rfl⟩
+theorem total_list (env : Env) : ∀ (ss : List Schema), ∀ s ∈ ss, Total env s
+  | [] => by simp
+  | s :: ss => by
+    intro s' hs'
+    rcases List.mem_cons.1 hs' with h | h
+    · rw [h]; exact total_all env s
+    · exact total_list env ss s' h
+theorem total_fields (env : Env) : ∀ (fs : List (PyKey × Bool × Schema)), ∀ f ∈ fs, Total env f.2.2
+  | [] => by simp
+  | (k, o, s) :: fs => by
+    intro f hf
+    rcases List.mem_cons.1 hf with h | h
+    · rw [h]; exact total_all env s
+    · exact total_fields env fs f h
+end
+
+mutual
+theorem accepts_all (env : Env) : ∀ (s : Schema), Accepts env s
+  | .scalar k => accepts_scalar env k
+  | .listU L => accepts_listU env L
+  | .listT t L => accepts_listT env t L (accepts_all env t)
+  | .listE lead es trail L => accepts_listE env lead es trail L (accepts_list env es)
+  | .dict none ell => accepts_dict_none env ell
+  | .dict (some []) (some pos) => accepts_dict_open env pos
+  | .dict (some []) none => accepts_dict env [] none (by simp) (by simp)
+  | .dict (some (f :: fs)) ell => accepts_dict env (f :: fs) ell (by simp) (accepts_fields env (f :: fs))
+  | .any none => accepts_any_none env
+  | .any (some ts) => accepts_any env ts (accepts_list env ts) (total_list env ts)
+  | .alias n t => by
+    intro s' v hs hg hnc hod hc
+    simp only [subst] at hs
+    obtain ⟨t', ht', rfl⟩ := bind_pure_ok _ _ _ hs
+    simp only [Conforms, NoContains, NoOpenDictAlt] at hc hnc hod ⊢
+    exact accepts_all env t t' v ht' hg hnc hod hc
+  | .custom t => by
+    intro s' v hs hg hnc hod hc
+    simp only [subst] at hs
+    obtain ⟨t', ht', rfl⟩ := bind_pure_ok _ _ _ hs
+    simp only [Conforms, NoContains, NoOpenDictAlt] at hc hnc hod ⊢
+    exact accepts_all env t t' v ht' hg hnc hod hc
+theorem accepts_list (env : Env) : ∀ (ss : List Schema), ∀ s ∈ ss, Accepts env s
+  | [] => by simp
+  | s :: ss => by
+    intro s' hs'
+    rcases List.mem_cons.1 hs' with h | h
+    · rw [h]; exact accepts_all env s
+    · exact accepts_list env ss s' h
+theorem accepts_fields (env : Env) : ∀ (fs : List (PyKey × Bool × Schema)), ∀ f ∈ fs, Accepts env f.2.2
+  | [] => by simp
+  | (k, o, s) :: fs => by
+    intro f hf
+    rcases List.mem_cons.1 hf with h | h
+    · rw [h]; exact accepts_all env s
+    · exact accepts_fields env fs f h
+end
+
+/-- **K13 (totality).** Substituting a plain value that conforms to the schema succeeds, unless the
+    schema has a contains-list or a dict with both declared keys and `...: ...` -/
+theorem subst_total (env : Env) (s : Schema) (v : PyVal) (hp : Plain v) (hnc : NoContains s)
+    (hod : NoOpenDict s) (hc : Conforms env s v) : ∃ s', subst env s v = .ok s' :=
+  total_all env s v hp hnc hod hc
+
+/-- **C04 (accepts), corrected.** If the plain value itself conforms to the original schema, the result
+    accepts it — provided no alternative of an `any` contains an open dict (`NoOpenDictAlt`, K13; see
+    `subst_accepts_counterexample` for the statement without it). -/
+theorem subst_accepts (env : Env) (s s' : Schema) (v : PyVal)
+    (hs : subst env s v = .ok s') (hp : Plain v) (hn : NoNaN v) (hd : DistinctKeys v) (hk : KeysNodupS s)
+    (hnc : NoContains s) (hoa : NoOpenDictAlt s) (hc : Conforms env s v) : Conforms env s' v := by
+  have _ := hk
+  exact accepts_all env s s' v hs ⟨hp, hn, hd⟩ hnc hoa hc
+
+
+/-! ### K12 witness -/
+
+/-- K12 witness: with a contains-list the first substitutable window may be a partial match, and the
+    result then rejects the value although the value conformed to the original:
+    S = [..., {"a": int, "b": int}, ...],  v = [{"a": 1}, {"a": 1, "b": 2}] -/
+theorem subst_accepts_contains_counterexample :
+    let env : Env := { rxSearch := fun _ _ => false, fl := PyFloat.fin }
+    let d := Schema.dict (some [(.str [97], false, .scalar (.int none none none)), (.str [98], false, .scalar (.int none none none))]) none
+    let s := Schema.listE true [d] true {}
+    let v := PyVal.list [.dict [(.str [97], .int 1)], .dict [(.str [97], .int 1), (.str [98], .int 2)]]
+    Conforms env s v ∧ ∃ s', subst env s v = .ok s' ∧ ¬ Conforms env s' v := by
+  intro env d s v
+  refine ⟨?_, .listE false
+    [.dict (some [(.str [97], false, .scalar (.int (some 1) none none)), (.str [98], false, .scalar (.int none none none))]) none,
+     .dict (some [(.str [97], false, .scalar (.int (some 1) none none)), (.str [98], false, .scalar (.int (some 2) none none))]) none]
+    false {}, ?_, ?_⟩
+  · show Conforms k7Env (.listE true [.dict (some [(.str [97], false, .scalar (.int none none none)), (.str [98], false, .scalar (.int none none none))]) none] true {})
+      (.list [.dict [(.str [97], .int 1)], .dict [(.str [97], .int 1), (.str [98], .int 2)]])
+    simp only [Conforms]
+    refine ⟨_, rfl, by simp [LenOK], ?_⟩
+    rw [if_pos (by simp)]
+    refine ⟨1, by simp, ?_⟩
+    simp [PrefixC, Conforms, FieldsC, lookupKey, ConformsScalar, asInt, hasField]
+    rintro a b (⟨rfl, _⟩ | ⟨rfl, _⟩) <;> simp
+  · show subst k7Env (.listE true [.dict (some [(.str [97], false, .scalar (.int none none none)), (.str [98], false, .scalar (.int none none none))]) none] true {})
+      (.list [.dict [(.str [97], .int 1)], .dict [(.str [97], .int 1), (.str [98], .int 2)]]) = _
+    rw [subst]
+    rw [substWindows]
+    simp [subst, validateP, lenErrFirst, windowsP, validateElemsP, validateFieldsP, lookupKey, validateScalar,
+      asInt, intBoundErrs, minByLen, hasField, substElems, substZip, substFields, ok?, fromNativeListS,
+      fromNativeS, fromNative, fromNativeKVs, ScalarS.withValue, bind, Except.bind, pure, Except.pure, isEllipsis]
+  · show ¬ Conforms k7Env _ (.list [.dict [(.str [97], .int 1)], .dict [(.str [97], .int 1), (.str [98], .int 2)]])
+    simp [Conforms, PrefixC, FieldsC, lookupKey, ConformsScalar, asInt, hasField]
+
+
+/-! ### K13 witness: `subst_accepts` as originally stated (without `NoOpenDictAlt`) is false -/
+
+/-- K13 witness: S = any({"a": int, ...: ...}, {"a": int, "b": int, "c": int}), v = {"a": 1, "c": 2}.
+    The value conforms to the first alternative, but substitution into that alternative is refused
+    (undeclared key "c" — the alternative is silently dropped); the second alternative, which the
+    value does *not* conform to ("b" is missing), substitutes fine because the substitution validator
+    ignores missing keys. The result any({"a": 1, "b": int, "c": 2}) rejects the value. All hypotheses
+    of the original statement hold. -/
+theorem subst_accepts_counterexample :
+    let env : Env := { rxSearch := fun _ _ => false, fl := PyFloat.fin }
+    let t1 := Schema.dict (some [(.str [97], false, .scalar (.int none none none))]) (some 1)
+    let t2 := Schema.dict (some [(.str [97], false, .scalar (.int none none none)),
+      (.str [98], false, .scalar (.int none none none)), (.str [99], false, .scalar (.int none none none))]) none
+    let s := Schema.any (some [t1, t2])
+    let v := PyVal.dict [(.str [97], .int 1), (.str [99], .int 2)]
+    Plain v ∧ NoNaN v ∧ DistinctKeys v ∧ KeysNodupS s ∧ NoContains s ∧ Conforms env s v ∧
+      ∃ s', subst env s v = .ok s' ∧ ¬ Conforms env s' v := by
+  intro env t1 t2 s v
+  refine ⟨by simp [v, Plain, PlainKV], by simp [v, NoNaN, NoNaNKV], by simp [v, DistinctKeys, DistinctKeysKV],
+    by simp [s, t1, t2, KeysNodupS, KeysNodupSL, KeysNodupSF], by simp [s, t1, t2, NoContains, NoContainsL, NoContainsF], ?_,
+    .any (some [.dict (some [(.str [97], false, .scalar (.int (some 1) none none)),
+      (.str [98], false, .scalar (.int none none none)), (.str [99], false, .scalar (.int (some 2) none none))]) none]), ?_, ?_⟩
+  · simp [s, t1, v, Conforms, AnyC, FieldsC, lookupKey, ConformsScalar, asInt]
+  · simp [s, t1, t2, v, subst, validateP, anyOkP, validateFieldsP, lookupKey, validateScalar,
+      asInt, intBoundErrs, hasField, substAlts, substFields, ok?, ScalarS.withValue, bind, Except.bind, pure,
+      Except.pure, isEllipsis]
+  · simp [v, Conforms, AnyC, FieldsC, lookupKey, ConformsScalar, asInt]
+
+
+/-! ### C04: the rest of a dict is kept -/
+
+theorem substFields_keeps (env : Env) : ∀ (fs : List (PyKey × Bool × Schema)) (kvs : List (PyKey × PyVal))
+    (fs' : List (PyKey × Bool × Schema)), substFields env fs kvs = .ok fs' →
+    ∀ f ∈ fs, lookupKey f.1 kvs = none → f ∈ fs'
+  | [], _, _, _, f, hf, _ => by simp at hf
+  | (k, opt, s) :: fs, kvs, fs', h, f, hf, hl => by
+    obtain ⟨f0, r', rfl, hr', hcase⟩ := substFields_cons_ok env k opt s fs kvs fs' h
+    rcases List.mem_cons.1 hf with rfl | hf'
+    · rcases hcase with ⟨hl', _⟩ | ⟨x, s', hl', _, _⟩ | ⟨_, rfl⟩
+      · simp only [] at hl; rw [hl'] at hl; cases hl
+      · simp only [] at hl; rw [hl'] at hl; cases hl
+      · simp
+    · exact List.mem_cons_of_mem _ (substFields_keeps env fs kvs r' hr' f hf' hl)
+
+theorem substFields_required (env : Env) : ∀ (fs : List (PyKey × Bool × Schema)) (kvs : List (PyKey × PyVal))
+    (fs' : List (PyKey × Bool × Schema)), substFields env fs kvs = .ok fs' →
+    ∀ f' ∈ fs', lookupKey f'.1 kvs ≠ none → f'.2.1 = false
+  | [], kvs, fs', h, f', hf', _ => by
+    rw [substFields_nil_ok env kvs fs' h] at hf'; simp at hf'
+  | (k, opt, s) :: fs, kvs, fs', h, f', hf', hl => by
+    obtain ⟨f0, r', rfl, hr', hcase⟩ := substFields_cons_ok env k opt s fs kvs fs' h
+    rcases List.mem_cons.1 hf' with rfl | hf''
+    · rcases hcase with ⟨_, rfl⟩ | ⟨x, s', _, _, rfl⟩ | ⟨hl', rfl⟩
+      · rfl
+      · rfl
+      · exact absurd hl' hl
+    · exact substFields_required env fs kvs r' hr' f' hf'' hl
+
+/-- **C04 (rest kept).** Dict keys that are not given keep their original schema and optionality, and
+    given keys become required -/
+theorem subst_keeps_rest (env : Env) (fs fs' : List (PyKey × Bool × Schema)) (e e' : Option Nat)
+    (kvs : List (PyKey × PyVal))
+    (hne : ¬ (fs = [] ∧ e.isSome))
+    (hs : subst env (.dict (some fs) e) (.dict kvs) = .ok (.dict (some fs') e')) :
+    e' = e ∧ fs'.map (·.1) = fs.map (·.1) ∧
+    ∀ f ∈ fs, lookupKey f.1 kvs = none → f ∈ fs' := by
+  obtain ⟨_, _, fs'', hfs, _, heq⟩ := subst_dict_ok env fs e kvs _ hne hs
+  cases heq
+  exact ⟨rfl, substFields_keys env fs kvs fs' hfs, substFields_keeps env fs kvs fs' hfs⟩
+
+/-- **C04 (given keys become required).** -/
+theorem subst_given_required (env : Env) (fs fs' : List (PyKey × Bool × Schema)) (e e' : Option Nat)
+    (kvs : List (PyKey × PyVal))
+    (hne : ¬ (fs = [] ∧ e.isSome))
+    (hs : subst env (.dict (some fs) e) (.dict kvs) = .ok (.dict (some fs') e')) :
+    ∀ f' ∈ fs', lookupKey f'.1 kvs ≠ none → f'.2.1 = false := by
+  obtain ⟨_, _, fs'', hfs, _, heq⟩ := subst_dict_ok env fs e kvs _ hne hs
+  cases heq
+  exact substFields_required env fs kvs fs' hfs
+
+/-! ### C04: pinned scalars -/
+
+/-- `subst_pins_scalar` as originally stated is false (1): a bool substituted into an int schema pins
+    the *int* value, so the result accepts `1` which is not `Same` as `True` -/
+theorem subst_pins_scalar_counterexample :
+    let env : Env := { rxSearch := fun _ _ => false, fl := PyFloat.fin }
+    let k := ScalarS.int none none none
+    let v := PyVal.bool true
+    let w := PyVal.int 1
+    k ≠ .none ∧ ∃ s', subst env (.scalar k) v = .ok s' ∧ Conforms env s' w ∧ ¬ Same env v w := by
+  intro env k v w
+  refine ⟨by simp [k], .scalar (.int (some 1) none none), ?_, ?_, ?_⟩
+  · simp [k, v, subst, validateScalar, asInt, intBoundErrs, ScalarS.withValue]
+  · simp [w, Conforms, ConformsScalar, asInt]
+  · simp [v, w, Same]
+
+theorem k7_prec : eqAtPrecision k7Env (.fin (6 / 5)) (.fin 1) 0 = true := by decide +kernel
+theorem k7_prec_far : isclose k7Env (.fin (6 / 5)) (.fin 1) = false := by decide +kernel
+
+/-- `subst_pins_scalar` as originally stated is false (2): a float schema with a `precision` compares
+    at that precision, not with `isclose`: float.precision(0) % 1.0 accepts 1.2 -/
+theorem subst_pins_scalar_precision_counterexample :
+    let env : Env := { rxSearch := fun _ _ => false, fl := PyFloat.fin }
+    let k := ScalarS.float none none none (some 0) none none
+    let v := PyVal.float (.fin 1)
+    let w := PyVal.float (.fin (6 / 5))
+    k ≠ .none ∧ ∃ s', subst env (.scalar k) v = .ok s' ∧ Conforms env s' w ∧ ¬ Same env v w := by
+  intro env k v w
+  refine ⟨by simp [k], .scalar (.float (some (.fin 1)) none none (some 0) none none), ?_, ?_, ?_⟩
+  · simp [k, v, subst, validateScalar, floatBoundErrs, ScalarS.withValue]
+  · show Conforms k7Env _ (.float (.fin (6 / 5)))
+    simp [Conforms, ConformsScalar, floatValueOk, k7_prec]
+  · show ¬ Same k7Env (.float (.fin 1)) (.float (.fin (6 / 5)))
+    simp [Same, k7_prec_far]
+
+/-- **C04 (pinned scalars), corrected.** A value accepted by the result of substituting a scalar equals
+    the substituted value (floats up to the `isclose` tolerance) — except for a bool substituted into an
+    int schema (`subst_pins_bool_int`) and a float schema with a precision (`subst_pins_float_precision`). -/
+theorem subst_pins_scalar (env : Env) (k : ScalarS) (v w : PyVal) (s' : Schema)
+    (hs : subst env (.scalar k) v = .ok s') (hk : k ≠ .none)
+    (hb : ∀ b x mn mx, ¬ (v = .bool b ∧ k = .int x mn mx))
+    (hpr : ∀ x mn mx pr d1 d2, k ≠ .float x mn mx (some pr) d1 d2)
+    (hc : Conforms env s' w) : Same env v w := by
+  rw [subst] at hs
+  split at hs
+  · rename_i hv
+    cases hs
+    have hcv := (validateScalar_nil_iff env k v []).1 (by simpa using hv)
+    simp only [Conforms] at hc
+    cases k with
+    | none => exact absurd rfl hk
+    | bool x => cases v <;> simp_all [ConformsScalar, ScalarS.withValue, Same]
+    | int x mn mx =>
+      cases v with
+      | bool b => exact absurd ⟨rfl, rfl⟩ (hb b x mn mx)
+      | int n =>
+        simp_all [ConformsScalar, ScalarS.withValue, Same, asInt]
+        obtain ⟨m, hm, rfl, _⟩ := hc
+        exact hm
+      | _ => simp [ConformsScalar, asInt] at hcv
+    | float x mn mx pr d1 d2 =>
+      cases pr with
+      | some p => exact absurd rfl (hpr x mn mx p d1 d2)
+      | none =>
+        cases v <;> simp_all [ConformsScalar, ScalarS.withValue, Same, floatValueOk]
+        obtain ⟨g, rfl, h, _⟩ := hc
+        exact ⟨g, rfl, h⟩
+    | str x L al sub pat =>
+      cases v <;> simp_all [ConformsScalar, ScalarS.withValue, Same]
+      obtain ⟨s, rfl, rfl, _⟩ := hc
+      rfl
+    | bytes x => cases v <;> simp_all [ConformsScalar, ScalarS.withValue, Same]
+    | uuid4 x => cases v <;> simp_all [ConformsScalar, ScalarS.withValue, Same]
+    | datetime x => cases v <;> simp_all [ConformsScalar, ScalarS.withValue, Same]
+    | date x => cases v <;> simp_all [ConformsScalar, ScalarS.withValue, Same]
+  · cases hs
+
+
+/-- the excluded case (1): a bool substituted into an int schema pins the int value -/
+theorem subst_pins_bool_int (env : Env) (x mn mx : Option Int) (b : Bool) (w : PyVal) (s' : Schema)
+    (hs : subst env (.scalar (.int x mn mx)) (.bool b) = .ok s') (hc : Conforms env s' w) :
+    asInt w = some (if b then 1 else 0) := by
+  rw [subst] at hs
+  split at hs
+  · cases hs
+    simp only [Conforms, ScalarS.withValue, asInt, ConformsScalar] at hc
+    obtain ⟨m, hm, hmx, _⟩ := hc
+    have hm' : asInt w = some m := hm
+    rw [hm', hmx _ rfl]
+  · cases hs
+
+/-- the excluded case (2): a float schema with a precision pins the value at that precision -/
+theorem subst_pins_float_precision (env : Env) (x mn mx : Option PyFloat) (pr : Nat) (d1 d2 : Option Rat)
+    (f : PyFloat) (w : PyVal) (s' : Schema)
+    (hs : subst env (.scalar (.float x mn mx (some pr) d1 d2)) (.float f) = .ok s') (hc : Conforms env s' w) :
+    ∃ g, w = .float g ∧ eqAtPrecision env g f pr = true := by
+  rw [subst] at hs
+  split at hs
+  · cases hs
+    simp only [Conforms, ScalarS.withValue, ConformsScalar] at hc
+    obtain ⟨g, rfl, hg, _⟩ := hc
+    exact ⟨g, rfl, by simpa [floatValueOk] using hg f rfl⟩
+  · cases hs
+
+
+end D42
